@@ -3,13 +3,14 @@
 from __future__ import annotations
 
 import ast
+import typing as t
 
 from .. import astq
-from ..cfg import CFG, Node
-from ..loader import AnalysisError, ClassInfo, FuncInfo, Module, Repo, dotted, norm
+from ..cfg import Node
+from ..loader import AnalysisError, ClassInfo, FuncInfo, Module, Repo, dotted, norm, walk_no_nested
 from ..report import Ctx
 from ..dataflow import bound_in_enclosing_comp
-from ._c18_helpers import EXHAUSTING, FRESH, INPLACE_OPERATOR, STOPPING_EARLY, EmptyRun, Flow, Unit, handler_catches, is_empty_literal, mangle, shared, why_conditional
+from ._c18_helpers import raised_class, EXHAUSTING, FRESH, INPLACE_OPERATOR, STOPPING_EARLY, EmptyRun, Flow, Unit, handler_catches, mangle, shared, why_conditional
 
 LEVEL_TEXT = (
     "Static decision of structural clauses of C18 on /repo's current source (werkzeug/local.py): (R18.1) copy-on-write - "
@@ -23,12 +24,20 @@ LEVEL_TEXT = (
     "of the payload's kind on every path and mutates nothing, "
     "release_local / LocalManager.cleanup release every managed local by a call in the calling context that is executed on every path "
     "AND for every element: some iteration over all managed locals (for loop, eager comprehension, generator expression / map "
-    "pulled to its end by list()/tuple()/set()/deque()/a loop) executes the release (`x.__release_local__()`, `release_local(x)`, "
-    "or a helper of the module that releases its parameter on every path) in every iteration - decided on the CFG between "
-    "statements and on the expression tree inside one statement: not a later operand of `and`/`or`, not a branch of a conditional "
+    "pulled to its end by list()/tuple()/set()/deque()/`[*it]`/a loop, a for loop over `range(len(locals))`, a while loop driven by a "
+    "cursor - a copy popped until it is empty, an iterator pulled with next() until its sentinel / StopIteration, an index counted "
+    "up to len(locals) -, in cleanup itself or in a helper of the module that is handed the locals; the locals may come through "
+    "a helper / property / generator of the module that hands all of them on) executes the release in every iteration. A release is "
+    "a call of the element's bound `__release_local__` however it was obtained (`x.__release_local__`, `getattr(x, \"__release_local__\")`, "
+    "`operator.attrgetter(...)(x)` - also as the loop variable of `map(attrgetter(...), locals)` / `(x.__release_local__ for x in locals)` "
+    "or a local name set in the same iteration), `operator.methodcaller(\"__release_local__\")(x)`, `type(x).__release_local__(x)`, "
+    "`release_local(x)`, or a helper of the module that releases its parameter on every path - decided on the CFG between "
+    "statements and on the expression tree inside one statement: not a later operand of `and`/`or` (unless the earlier operands only "
+    "test that there are locals), not a branch of a conditional "
     "expression, not under a test (also one fed by earlier iterations), not filtered by a comprehension `if`, not pulled by "
     "any()/all()/next() (which stop early), not inside an `assert` - the loop is never left early (break / return / raise) and "
-    "is bypassed only on paths where the container is known to be empty; the same in-statement conditionality applies to the "
+    "is bypassed only on paths where the container is known to be empty (a bypass under a test of the locals that is not understood, "
+    "or a loop variable handed to code that is not understood, is ANALYSIS-ERROR, not a violation); the same in-statement conditionality applies to the "
     "`.set` of a release method, the delegation in release_local, the installation of _get_current_object and the resolution "
     "in _ProxyLookup.__get__; "
     "what LocalManager.__init__ stores contains the locals it was given on every path where some were given (through local names, "
@@ -39,9 +48,18 @@ LEVEL_TEXT = (
     "_get_current_object variant reads it at call time and keeps no state, _ProxyLookup.__get__ calls _get_current_object on "
     "every instance access and stores nothing, Local()/LocalStack() hand the local itself to the proxy; (R18.4) with an empty "
     "payload, Local.__getattr__/__delattr__ raise AttributeError and LocalStack.top/pop return None (abstract execution of the "
-    "method with the payload known to be empty, following helpers of the module it calls), every `.get` on a storage passes an empty default (literally, or through a helper parameter at every call site), each proxy variant turns that "
-    "outcome (AttributeError / None / LookupError) into RuntimeError, _ProxyLookup.__get__ catches RuntimeError, re-raises it exactly "
-    "when no fallback was declared and otherwise returns the fallback, __bool__'s fallback returns False and __repr__'s fallback does "
+    "method with the payload known to be empty: constants, len/bool/not/comparisons/integer arithmetic, conditional expressions, local names whose every "
+    "reaching definition - on a branch the empty payload does not rule out - has the same value, `next(iter(<empty>), d)`, `<empty dict>.get(k, d)` with a "
+    "module-level sentinel, any/all over nothing; helpers of the module it calls are followed; an exit that is reached only beyond a payload-dependent "
+    "condition or value the run cannot evaluate is ANALYSIS-ERROR, never a violation), every `.get` on a storage passes an empty default (literally, or through a helper parameter at every call site), each proxy variant turns that "
+    "outcome (AttributeError / None / LookupError) into RuntimeError (an except clause, or - for a value that is a sentinel when nothing is bound: None top, "
+    "`var.get(<module-level object()>)`, `getattr(local, name, <module-level object()>)` - an identity test whose sentinel branch can only raise it; the raise may "
+    "sit in a nested / module helper that never returns, the exception may be built first or by a helper, the test may sit in a helper that is handed the value), "
+    "_ProxyLookup.__get__ catches RuntimeError, re-raises it exactly "
+    "when no fallback was declared and otherwise returns a value produced from the fallback (decided by walking the code that handles the exception under both "
+    "valuations of 'a fallback is declared' - tests of the fallback slot through local names, `is None` / truthiness -, following helpers of the module "
+    "called from the handler, where a bare `raise` re-raises the exception being handled, and flags set in the handler and tested after the try statement), "
+    "__bool__'s fallback returns False and __repr__'s fallback does "
     "not go through the bound object; (R18.5) Local/LocalStack instances have no storage besides the ContextVar (__slots__), the "
     "ContextVar is bound only in __init__, and the module keeps no mutable module-level or class-level container. "
     "Not decided: the interleaving semantics of contextvars itself (trusted), mutation through the list that LocalStack.push "
@@ -162,32 +180,73 @@ def _storage_classes(repo: Repo, mod: Module, probe: Flow) -> dict[str, tuple[Cl
 # small CFG helpers
 
 
-def _only_raises(cfg: CFG, starts: list[Node], allowed: set[str | None]) -> tuple[bool, str]:
-    """every path from starts ends at the raising exit, through raise statements of the allowed classes only."""
+def _raise_names(flow: Flow, u: Unit, starts: list[Node], depth: int = 0) -> list[str | None] | str:
+    """names of the exception classes raised (None = bare re-raise) when every path from starts ends raising - in the
+    function itself or in a helper of the module (nested function, module function, method) it calls that can only raise;
+    otherwise the reason (a text) why some path does not."""
+    cfg = u.cfg
+    names: list[str | None] = []
+    seen: set[int] = set()
+    work = list(starts)
+    while work:
+        n = work.pop()
+        if n.id in seen:
+            continue
+        seen.add(n.id)
+        if n is cfg.exit:
+            return "a path from there returns normally"
+        a = n.ast
+        if isinstance(a, ast.Raise):
+            names.append(raised_class(u, a, flow))
+            work.extend(s for s, l in n.succs if l == "exc")
+            continue
+        if n.kind == "stmt" and a is not None and depth < 2 and not isinstance(a, (ast.FunctionDef, ast.AsyncFunctionDef, ast.ClassDef)):
+            ended = False
+            for c_ in [x for x in [a, *walk_no_nested(a)] if isinstance(x, ast.Call)]:
+                callees = flow.callees(c_, u)
+                if len(callees) != 1 or callees[0][0] is u or why_conditional(c_, a) is not None:
+                    continue
+                tu = callees[0][0]
+                if isinstance(tu.fi.node, ast.AsyncFunctionDef) or any(isinstance(y, (ast.Yield, ast.YieldFrom)) for y in tu.walk()):
+                    continue
+                sub = _raise_names(flow, tu, [tu.cfg.entry], depth + 1)
+                if isinstance(sub, list) and sub:
+                    names.extend(sub)  # the helper never returns: whatever it raises is raised here
+                    ended = True
+                    break
+            if ended:
+                work.extend(s for s, l in n.succs if l == "exc")
+                continue
+        work.extend(s for s, _ in n.succs)
+    return names
+
+
+def _only_raises(flow: Flow, u: Unit, starts: list[Node], allowed: set[str | None]) -> tuple[bool | None, str]:
+    """every path from starts ends at the raising exit, through raise statements of the allowed classes only.
+    (None, why) when a raise statement raises something whose class cannot be told."""
     if not starts:
         return False, "no such branch"
-    r = cfg.reach(starts)
-    if cfg.exit.id in r:
-        return False, "a path from there returns normally"
-    names = []
-    for n in cfg.nodes:
-        if n.id in r and isinstance(n.ast, ast.Raise):
-            names.append(astq.raised_name(n.ast) if n.ast.exc is not None else None)
+    names = _raise_names(flow, u, starts)
+    if isinstance(names, str):
+        return False, names
     if not names:
         return False, "no raise statement there"
+    fact = f"raises {sorted(set(str(x) if x else 're-raise' for x in names))}"
     bad = [x for x in names if x not in allowed]
-    return not bad, f"raises {sorted(set(str(x) if x else 're-raise' for x in names))}"
+    if bad and all((x or "").startswith("?") for x in bad):
+        return None, fact + ": the class of what is raised cannot be told"
+    return not bad, fact
 
 
-def _none_test(t: Node, is_subject) -> str | None:
-    """label of the edge on which the tested subject IS None ('T' / 'F'), if t is such a test."""
+def _none_test(t: Node, is_subject, is_sentinel=astq.is_none) -> str | None:
+    """label of the edge on which the tested subject IS None - or, with ``is_sentinel``, is that sentinel - ('T' / 'F'), if t is such a test."""
     a = t.ast
     if t.kind != "test" or not isinstance(a, ast.Compare) or len(a.ops) != 1:
         return None
     l, op, r = a.left, a.ops[0], a.comparators[0]
-    if astq.is_none(l):
+    if is_sentinel(l) and not is_sentinel(r):
         l, r = r, l
-    if not astq.is_none(r) or not is_subject(l):
+    if not is_sentinel(r) or not is_subject(l):
         return None
     if isinstance(op, (ast.Is, ast.Eq)):
         return "T"
@@ -273,6 +332,9 @@ def _payload_kinds(ctx: Ctx, flow: Flow, storage) -> dict[str, str]:
         for u, g in _readers(flow, storage, c):
             k = flow.default_kind(g.args[0], u, c) if g.args else None
             who = u.fi.qualname if u.cls is c else f"{u.fi.qualname} (for {cname})"
+            if k is None and g.args and not flow.default_wrong(g.args[0], u, c):
+                ctx.error(f"R18.4: {who}: `{norm(g)}`: the default is neither an empty container literal (directly, through local names, through a helper parameter at every call site) nor certainly something else: cannot decide what an unset context reads as")
+                continue
             ctx.ob("R18.4", f"{who}: an unset context reads as the empty payload", k in ("dict", "list"),
                    f"`{norm(g)}`: default is {'an empty ' + k if k else 'missing or not an empty container literal (unset raises LookupError / differs from released)'}", u.fi, g, f"default of {norm(g)}" + ("" if u.cls is c else f" for {cname}"))
             if k:
@@ -450,6 +512,15 @@ class _Keeps:
                     continue
                 parts.append(self.keeps(br, node, depth + 1))
             return None if (not parts or any(p is None for p in parts)) else parts[0]
+        # the parameter handed to a helper of the module (a normalising function, a generator): the helper is looked into
+        for c_ in ast.walk(e):
+            if isinstance(c_, ast.Call) and depth < 4:
+                callees = self.flow.callees(c_, self.u)
+                if len(callees) == 1:
+                    tu, off = callees[0]
+                    pn = _param_receiving(self.flow, tu, c_, off, lambda a_: astq.is_name(a_, self.lp))
+                    if pn is not None and tu is not self.u:
+                        return f"built by {tu.fi.name}({self.lp}), which hands on the locals it is given on every path" if self._helper_keeps(tu, pn, depth) else None
         for x in ast.walk(e):
             if not isinstance(x, ast.Name) or not isinstance(x.ctx, ast.Load):
                 continue
@@ -459,6 +530,25 @@ class _Keeps:
             if defs and all(self._def_keeps(d, depth) for d in defs):
                 return f"built from `{x.id}`, which holds the parameter's locals"
         return None
+
+    def _helper_keeps(self, tu: Unit, pn: str, depth: int) -> bool:
+        """a helper that is handed the locals returns (or, a generator, yields) them on every path where some were given."""
+        sub = _Keeps(self.flow, tu, pn, self.attr)
+        if isinstance(tu.fi.node, ast.AsyncFunctionDef):
+            return False
+        yields = [n for n in tu.walk() if isinstance(n, (ast.Yield, ast.YieldFrom))]
+        if not yields:
+            rets = [n for n in tu.walk() if isinstance(n, ast.Return)]
+            return bool(rets) and all(r.value is not None and tu.cfg.node_of(r) is not None and sub.keeps(r.value, tu.cfg.node_of(r), depth + 1) is not None for r in rets)  # type: ignore[arg-type]
+        grow = []
+        for y in yields:
+            n_ = tu.cfg.node_of(y)
+            if n_ is not None and isinstance(astq.parent(y), ast.Expr) and y.value is not None and sub.keeps(y.value, n_, depth + 1) is not None:
+                grow.append(n_)
+        if not grow:
+            return False
+        r = tu.cfg.reach(tu.cfg.entry, avoid_nodes=grow, avoid_edges=sub.none_edges)
+        return tu.cfg.exit.id not in r
 
     def _def_keeps(self, d, depth: int) -> bool:
         if d.node is None or d.value is None or d.kind not in ("assign", "walrus", "unpack", "for", "aug"):
@@ -508,8 +598,38 @@ class _Keeps:
         return False
 
 
+LAZY = {"builtins.iter", "builtins.reversed", "builtins.map", "builtins.filter", "builtins.zip", "builtins.enumerate"}
+
+
+def _foreign_result(flow: Flow, u: Unit, e: ast.AST | None, at: Node | None, depth: int = 0) -> str | None:
+    """text of a call into unseen code (not a builtin / stdlib constructor the tag analysis knows, not a lazy builtin, not a
+    helper of the module) whose result e may evaluate to - through local names and conditional expressions."""
+    if e is None or depth > 4:
+        return None
+    if isinstance(e, ast.NamedExpr):
+        return _foreign_result(flow, u, e.value, at, depth)
+    if isinstance(e, ast.IfExp):
+        return _foreign_result(flow, u, e.body, at, depth + 1) or _foreign_result(flow, u, e.orelse, at, depth + 1)
+    if isinstance(e, ast.Name) and at is not None:
+        for d in u.rd.reaching(at, e.id):
+            if d.kind in ("assign", "walrus") and d.index is None and d.value is not None:
+                r = _foreign_result(flow, u, d.value, d.node, depth + 1)
+                if r is not None:
+                    return r
+        return None
+    if isinstance(e, ast.Call):
+        if isinstance(e.func, ast.Attribute) and e.func.attr in ("copy", "__copy__"):
+            return None
+        fq = flow.resolve_callee_name(e, u)
+        if flow.callees(e, u) or (fq is not None and (fq in LAZY or fq.startswith("itertools.") or fq.startswith("builtins.") or fq.startswith("collections.") or fq.startswith("copy."))):
+            return None
+        return norm(e)
+    return None
+
+
 RELEASE = "__release_local__"
 COPYING = ("list", "tuple", "reversed", "iter", "sorted")
+INERT_CALLS = {"isinstance", "type", "id", "repr", "str", "print", "len", "hasattr", "getattr", "callable", "bool", "hash"}
 
 
 def _param_subject(u: Unit, pname: str):
@@ -534,61 +654,232 @@ def _param_receiving(flow: Flow, cu: Unit, call: ast.Call, off: int, is_subject)
     return None
 
 
-def _releases_param(flow: Flow, cu: Unit, pname: str, rl: FuncInfo | None, depth: int) -> bool:
-    """does calling cu release, on every normal path and in the calling context, the local passed for pname?"""
-    if isinstance(cu.fi.node, ast.AsyncFunctionDef) or any(isinstance(n, (ast.Yield, ast.YieldFrom)) for n in cu.walk()):
-        return False  # calling a generator / coroutine function runs nothing
-    calls = _release_calls(flow, cu, _param_subject(cu, pname), rl, depth)
-    nodes = [x for x in (flow.run_node(c_, cu) for c_ in calls) if x is not None]
-    return bool(nodes) and cu.cfg.all_paths_pass(cu.cfg.entry, [cu.cfg.exit], nodes)
+class _Rel:
+    """Recognition of "this call releases the local S, now" - by meaning, shared by release_local, LocalManager.cleanup and
+    the helpers they call.  A release is a call of S's bound `__release_local__` - however the bound method was obtained
+    (`S.__release_local__`, `getattr(S, "__release_local__")`, `attrgetter("__release_local__")(S)`, a local name holding
+    one of these, set in the same iteration) - or `methodcaller("__release_local__")(S)`, `type(S).__release_local__(S)`,
+    `release_local(S)`, or a helper of the module that releases the parameter receiving S on every path."""
 
+    def __init__(self, flow: Flow, rl: FuncInfo | None):
+        self.flow, self.rl = flow, rl
 
-def _release_calls(flow: Flow, u: Unit, is_subject, rl: FuncInfo | None, depth: int = 0) -> list[ast.Call]:
-    """calls in u that release the local ``is_subject`` recognises: `<it>.__release_local__()`, `release_local(<it>)`
-    (whose own body is a separate obligation), or a helper of this module that releases the parameter receiving it."""
-    out: list[ast.Call] = []
-    for c_ in u.walk():
-        if not isinstance(c_, ast.Call):
-            continue
+    # -- small recognisers -------------------------------------------------------------------------------
+    def _op(self, call: ast.AST | None, u: Unit, name: str) -> bool:
+        """call is operator.<name>("__release_local__")."""
+        if not isinstance(call, ast.Call) or len(call.args) != 1 or call.keywords or astq.const_str(call.args[0]) != RELEASE:
+            return False
+        return (self.flow.resolve_callee_name(call, u) or "") in (f"operator.{name}", f"_operator.{name}")
+
+    def _stands_for(self, e: ast.Name, u: Unit) -> list[ast.AST] | None:
+        """the expressions a name used as a function stands for: its reaching plain assignments, or its module-level
+        binding(s); None when it is something else (parameter, loop variable, function ...)."""
+        node = u.cfg.node_of(e)
+        defs = u.rd.reaching(node, e.id) if node is not None else frozenset()
+        if defs:
+            if all(d.kind in ("assign", "walrus") and d.index is None and d.value is not None for d in defs):
+                return [d.value for d in defs]  # type: ignore[misc]
+            return None
+        o = u.outer
+        while o is not None:
+            if Flow._binds(o, e.id):
+                return None
+            o = o.outer
+        mod = self.flow.module
+        if e.id in mod.functions or e.id in mod.classes:
+            return None
+        vals = mod.assigns.get(e.id)
+        return list(vals) if vals else None
+
+    @staticmethod
+    def _same_iteration(u: Unit, dnode: Node | None, use: Node | None, head: Node | None) -> bool:
+        """a definition made in a loop body is the one of THIS iteration when every path from the loop head to the use passes it."""
+        if head is None or dnode is None or use is None or dnode is use:
+            return dnode is not None and use is not None
+        starts = [s for s, l in head.succs if l in ("T", None) and s is not dnode]  # for loop: the body edge; while loop (join node): its condition
+        return use.id not in u.cfg.reach(starts, avoid_nodes=[dnode])
+
+    def subject(self, e: ast.AST, u: Unit, is_subject, head: Node | None = None, depth: int = 0) -> bool:
+        """e is S, or a local name that is a plain copy of S made in the same iteration."""
+        if is_subject(e):
+            return True
+        if isinstance(e, ast.NamedExpr):
+            return self.subject(e.value, u, is_subject, head, depth)
+        if isinstance(e, ast.Name) and depth < 3 and bound_in_enclosing_comp(e, u.fi.node) is None:
+            use = u.cfg.node_of(e)
+            defs = u.rd.reaching(use, e.id) if use is not None else frozenset()
+            return bool(defs) and all(
+                d.kind in ("assign", "walrus") and d.index is None and d.value is not None and self.subject(d.value, u, is_subject, head, depth + 1) and self._same_iteration(u, d.node, use, head)
+                for d in defs)
+        return False
+
+    def binder(self, fn: ast.AST, u: Unit, depth: int = 0) -> bool:
+        """fn(x) evaluates to x's bound __release_local__ (and does nothing else)."""
+        if depth > 3:
+            return False
+        if self._op(fn, u, "attrgetter"):
+            return True
+        if isinstance(fn, ast.Lambda) and len(fn.args.args) == 1 and not (fn.args.posonlyargs or fn.args.kwonlyargs or fn.args.vararg or fn.args.kwarg):
+            pn = fn.args.args[0].arg
+            return self.bound(fn.body, u, lambda e: astq.is_name(e, pn))
+        if isinstance(fn, ast.Name):
+            vals = self._stands_for(fn, u)
+            return bool(vals) and all(self.binder(v, u, depth + 1) for v in vals)
+        return False
+
+    def bound(self, e: ast.AST | None, u: Unit, is_subject, head: Node | None = None, depth: int = 0) -> bool:
+        """e evaluates to the bound `__release_local__` of S."""
+        if e is None or depth > 4:
+            return False
+        if isinstance(e, ast.NamedExpr):
+            return self.bound(e.value, u, is_subject, head, depth)
+        if isinstance(e, ast.Attribute):
+            return e.attr == RELEASE and self.subject(e.value, u, is_subject, head)
+        if isinstance(e, ast.Call) and not e.keywords:
+            if dotted(e.func) == "getattr" and len(e.args) == 2 and astq.const_str(e.args[1]) == RELEASE and not self.flow._locally_bound("getattr", e, u):
+                return self.subject(e.args[0], u, is_subject, head)
+            if len(e.args) == 1 and self.binder(e.func, u):
+                return self.subject(e.args[0], u, is_subject, head)
+            return False
+        if isinstance(e, ast.Name) and bound_in_enclosing_comp(e, u.fi.node) is None:
+            use = u.cfg.node_of(e)
+            defs = u.rd.reaching(use, e.id) if use is not None else frozenset()
+            return bool(defs) and all(
+                d.kind in ("assign", "walrus") and d.index is None and d.value is not None and self.bound(d.value, u, is_subject, head, depth + 1) and self._same_iteration(u, d.node, use, head)
+                for d in defs)
+        return False
+
+    def releaser(self, fn: ast.AST, u: Unit, depth: int = 0) -> bool:
+        """calling fn(x) releases x before it returns."""
+        if depth > 3:
+            return False
+        if self._op(fn, u, "methodcaller"):
+            return True
+        if isinstance(fn, ast.Lambda) and len(fn.args.args) == 1 and not (fn.args.posonlyargs or fn.args.kwonlyargs or fn.args.vararg or fn.args.kwarg):
+            pn = fn.args.args[0].arg
+            calls = [c_ for c_ in ast.walk(fn.body) if isinstance(c_, ast.Call) and self.is_release(c_, u, lambda e: astq.is_name(e, pn), depth + 1)]
+            return any(why_conditional(c_, fn.body) is None for c_ in calls)
+        target: Unit | None = None
+        first = 0
+        if isinstance(fn, ast.Name):
+            vals = self._stands_for(fn, u)
+            if vals is not None:
+                return bool(vals) and all(self.releaser(v, u, depth + 1) for v in vals)
+            node = u.cfg.node_of(fn)
+            if (node is None or not u.rd.reaching(node, fn.id)) and fn.id in self.flow.module.functions and self.flow.resolve_callee_name(ast.Call(func=fn, args=[], keywords=[]), u) is not None:
+                target = self.flow.unit_of(self.flow.module.functions[fn.id])
+        elif isinstance(fn, ast.Attribute) and self.flow.self_ref(fn.value, u) and u.cls is not None:
+            _, what = self.flow.repo.lookup(u.cls, fn.attr)
+            if isinstance(what, FuncInfo) and id(what.node) in self.flow.by_node:
+                target = self.flow.by_node[id(what.node)]
+                first = 0 if "staticmethod" in what.decorators else 1
+        if target is None:
+            return False
+        a_ = target.fi.node.args
+        pos = [y.arg for y in a_.posonlyargs + a_.args]
+        if len(pos) <= first:
+            return False
+        return (self.rl is not None and target.fi is self.rl) or self.releases_param(target, pos[first], depth + 1)
+
+    # -- the two questions the rules ask --------------------------------------------------------------------
+    def is_release(self, c_: ast.Call, u: Unit, is_subject, depth: int = 0, head: Node | None = None) -> bool:
         f = c_.func
-        if isinstance(f, ast.Attribute) and f.attr == RELEASE and is_subject(f.value) and not c_.args and not c_.keywords:
-            out.append(c_)
-            continue
-        callees = flow.callees(c_, u)
+        if not c_.args and not c_.keywords and self.bound(f, u, is_subject, head):
+            return True
+        if len(c_.args) == 1 and not c_.keywords and self.subject(c_.args[0], u, is_subject, head):
+            if self._op(f, u, "methodcaller"):
+                return True
+            if isinstance(f, ast.Attribute) and f.attr == RELEASE and isinstance(f.value, ast.Call) and dotted(f.value.func) == "type" and len(f.value.args) == 1 and self.subject(f.value.args[0], u, is_subject, head):
+                return True
+            if isinstance(f, ast.Name) and not self.flow.callees(c_, u):
+                vals = self._stands_for(f, u)
+                if vals and all(self.releaser(v, u, depth + 1) for v in vals):
+                    return True
+        callees = self.flow.callees(c_, u)
         good = bool(callees)
         for tu, off in callees:
-            pn = _param_receiving(flow, tu, c_, off, is_subject)
+            pn = _param_receiving(self.flow, tu, c_, off, lambda e: self.subject(e, u, is_subject, head))
             if pn is None:
                 good = False
-            elif rl is not None and tu.fi is rl:
+            elif self.rl is not None and tu.fi is self.rl:
                 continue
-            elif depth >= 2 or tu is u or not _releases_param(flow, tu, pn, rl, depth + 1):
+            elif depth >= 2 or tu is u or not self.releases_param(tu, pn, depth + 1):
                 good = False
-        if good:
-            out.append(c_)
-    return out
+        return good
+
+    def calls(self, u: Unit, is_subject, depth: int = 0, head: Node | None = None, within: ast.AST | None = None) -> list[ast.Call]:
+        """calls in u (inside ``within`` when given, nested lambdas excluded) that release S."""
+        it = u.walk() if within is None else walk_no_nested(within)
+        return [c_ for c_ in it if isinstance(c_, ast.Call) and self.is_release(c_, u, is_subject, depth, head)]
+
+    def releases_param(self, cu: Unit, pname: str, depth: int) -> bool:
+        """does calling cu release, on every normal path and in the calling context, the local passed for pname?"""
+        if isinstance(cu.fi.node, ast.AsyncFunctionDef) or any(isinstance(n, (ast.Yield, ast.YieldFrom)) for n in cu.walk()):
+            return False  # calling a generator / coroutine function runs nothing
+        calls = self.calls(cu, _param_subject(cu, pname), depth)
+        nodes = [x for x in (self.flow.run_node(c_, cu) for c_ in calls) if x is not None]
+        return bool(nodes) and cu.cfg.all_paths_pass(cu.cfg.entry, [cu.cfg.exit], nodes)
+
+    def unclear_use(self, is_var, within: ast.AST, u: Unit, depth: int = 0) -> str | None:
+        """a call in the iteration that involves the loop variable in a way that is not understood (it may well release it).
+        A helper of the module is looked into: what it does with the parameter is visible."""
+        for c_ in walk_no_nested(within):
+            if not isinstance(c_, ast.Call) or dotted(c_.func) in INERT_CALLS:
+                continue
+            if isinstance(c_.func, ast.Call) and dotted(c_.func.func) == "getattr" and len(c_.func.args) >= 2 and astq.const_str(c_.func.args[1]) is not None:
+                continue  # a method looked up by a constant name: were it the release, `bound` would have said so (other name / a default that may be taken instead)
+            if not any(isinstance(y, ast.Name) and is_var(y) for part in [c_.func, *c_.args, *[k.value for k in c_.keywords]] for y in ast.walk(part)):
+                continue
+            callees = self.flow.callees(c_, u)
+            if not callees or depth >= 2:
+                return norm(c_)
+            for tu, off in callees:
+                if self.rl is not None and tu.fi is self.rl:
+                    continue
+                pn = _param_receiving(self.flow, tu, c_, off, is_var)
+                if pn is None:
+                    return norm(c_)
+                inner = self.unclear_use(_param_subject(tu, pn), tu.fi.node, tu, depth + 1)
+                if inner is not None:
+                    return f"{norm(c_)} -> {inner}"
+        return None
 
 
-def _empty_edges(flow: Flow, cu: Unit, is_managed) -> list[tuple[Node, str]]:
-    """(test, label) edges on which the managed container is known to be empty: nothing to release beyond them."""
+def _empty_edges(flow: Flow, cu: Unit, is_managed, understood: set[int] | None = None) -> list[tuple[Node, str]]:
+    """(test, label) edges on which the managed container is known to be empty: nothing to release beyond them.
+    ``understood`` collects the tests whose meaning is known although no edge of them implies emptiness (`len(x) < 2`)."""
     out: list[tuple[Node, str]] = []
 
     def is_len(e: ast.AST) -> bool:
         return isinstance(e, ast.Call) and dotted(e.func) == "len" and len(e.args) == 1 and is_managed(e.args[0], cu.cfg.node_of(e))
 
+    def is_count(e: ast.AST, depth: int = 0) -> bool:
+        """len(<managed>) or a local name holding it."""
+        if is_len(e):
+            return True
+        if isinstance(e, ast.NamedExpr):
+            return is_count(e.value, depth)
+        if isinstance(e, ast.Name) and depth < 3:
+            node = cu.cfg.node_of(e)
+            defs = cu.rd.reaching(node, e.id) if node is not None else frozenset()
+            return bool(defs) and all(d.kind in ("assign", "walrus") and d.index is None and d.value is not None and is_count(d.value, depth + 1) for d in defs)
+        return False
+
     for t_ in cu.cfg.tests():
         e = t_.ast
         if t_.kind != "test" or e is None:
             continue
-        if is_managed(e, t_) or is_len(e):
+        if is_managed(e, t_) or is_count(e):
             out.append((t_, "F"))
         elif isinstance(e, ast.Compare) and len(e.ops) == 1:
             l, op, r = e.left, e.ops[0], e.comparators[0]
             if isinstance(l, ast.Constant):
                 l, r = r, l
                 op = {ast.Lt: ast.Gt, ast.Gt: ast.Lt, ast.LtE: ast.GtE, ast.GtE: ast.LtE}.get(type(op), type(op))()
-            if is_len(l) and isinstance(r, ast.Constant) and type(r.value) is int:
+            if is_count(l) and isinstance(r, ast.Constant) and type(r.value) is int:
                 k = r.value
+                if understood is not None:
+                    understood.add(id(t_))
                 if (isinstance(op, ast.Eq) and k == 0) or (isinstance(op, ast.Lt) and k == 1) or (isinstance(op, ast.LtE) and k == 0):
                     out.append((t_, "T"))
                 elif (isinstance(op, (ast.NotEq, ast.Gt)) and k == 0) or (isinstance(op, ast.GtE) and k == 1):
@@ -596,48 +887,203 @@ def _empty_edges(flow: Flow, cu: Unit, is_managed) -> list[tuple[Node, str]]:
     return out
 
 
-def _cleanup(ctx: Ctx, flow: Flow, cu: Unit, attr: str, rl: FuncInfo) -> None:
-    """LocalManager.cleanup: some iteration over ALL managed locals executes a release of the element in EVERY
-    iteration (not as a short-circuited operand, not on some paths only, not pulled lazily by a consumer that stops
-    early), is never left early, and is reached on every path on which there is something to release."""
-    cfg = cu.cfg
-    cleanup = cu.fi
+Verdict = t.Tuple[str, str, ast.AST, str]  # status (ok | bad | unknown), fact, node, construct
 
-    def is_managed(e: ast.AST | None, at: Node | None, depth: int = 0) -> bool:
-        """e evaluates to the managed locals (the attribute, a plain alias, a full copy / re-ordering of it)."""
+
+class _Scan:
+    """Iterations over ALL managed locals in one function, and for each: is a release of the element executed in EVERY
+    iteration (not as a short-circuited operand, not on some paths only, not pulled lazily by a consumer that stops early),
+    is the iteration never left early, and is it reached on every path on which there is something to release.
+
+    "The managed locals" are the manager's attribute, a parameter that the call site feeds with them (when the iteration
+    was moved into a helper), a plain alias / full copy / re-ordering of those, or a helper / generator of the module that
+    hands all of them on.  The loop variable may stand for the local itself, for its bound `__release_local__`
+    (`map(attrgetter(...), locals)`, `(x.__release_local__ for x in locals)`), or for its index (`range(len(locals))`)."""
+
+    def __init__(self, flow: Flow, rel: _Rel, cu: Unit, attr: str, self_ok: bool = True, managed_params: t.Iterable[str] = (), depth: int = 0, what: str = "cleanup"):
+        self.flow, self.rel, self.cu, self.attr = flow, rel, cu, attr
+        self.self_ok, self.params, self.depth = self_ok, set(managed_params), depth
+        self.cfg = cu.cfg
+        self.what = what
+        self.understood: set[int] = set()
+        self.empty = _empty_edges(flow, cu, self.is_managed, self.understood)
+
+    # -- what is iterated ------------------------------------------------------------------------------------
+    def _hands_on_all(self, call: ast.Call, depth: int) -> bool:
+        """a helper of the module (function, method, generator) whose result is / yields all managed locals."""
+        if self.depth + depth > 3:
+            return False
+        callees = self.flow.callees(call, self.cu)
+        if len(callees) != 1:
+            return False
+        tu, off = callees[0]
+        return self._unit_hands_on(tu, call, off)
+
+    def _unit_hands_on(self, tu: Unit, call: ast.Call | None, off: int) -> bool:
+        if tu is self.cu or isinstance(tu.fi.node, ast.AsyncFunctionDef):
+            return False
+        params: set[str] = set()
+        if call is not None:
+            a = tu.fi.node.args
+            for nm in [x.arg for x in a.posonlyargs + a.args + a.kwonlyargs]:
+                how, arg = self.flow.site_arg(tu, nm, call, off)
+                if how == "arg" and arg is not None and self.is_managed(arg, self.cfg.node_of(arg)):
+                    params.add(nm)
+        sub = _Scan(self.flow, self.rel, tu, self.attr, self.self_ok and off == 1 and tu.cls is self.cu.cls, params, self.depth + 1)
+        yields = [n for n in tu.walk() if isinstance(n, (ast.Yield, ast.YieldFrom))]
+        if not yields:
+            rets = [n for n in tu.walk() if isinstance(n, ast.Return)]
+            return bool(rets) and all(r.value is not None and sub.is_managed(r.value, tu.cfg.node_of(r)) for r in rets)
+        # generator: one `yield from <managed>` / `for x in <managed>: yield x` passed on every path, nothing that ends it early
+        if any(isinstance(n, ast.Return) for n in tu.walk()):
+            return False
+        good: list[Node] = []
+        for y in yields:
+            node = tu.cfg.node_of(y)
+            st = astq.parent(y)
+            if node is None or not isinstance(st, ast.Expr):
+                return False
+            if isinstance(y, ast.YieldFrom):
+                if not sub.is_managed(y.value, node):
+                    return False
+                good.append(node)
+            else:
+                loop = astq.parent(st)
+                if not (isinstance(loop, (ast.For, ast.AsyncFor)) and len(loop.body) == 1 and loop.body[0] is st and not loop.orelse and isinstance(loop.target, ast.Name)
+                        and astq.is_name(y.value, loop.target.id) and sub.is_managed(loop.iter, tu.cfg.node_of(loop))):
+                    return False
+                head = tu.cfg.node_of(loop)
+                if head is None:
+                    return False
+                good.append(head)
+        return bool(good) and tu.cfg.all_paths_pass(tu.cfg.entry, [tu.cfg.exit], good)
+
+    def is_managed(self, e: ast.AST | None, at: Node | None, depth: int = 0) -> bool:
+        """e evaluates to the managed locals (the attribute, a plain alias, a full copy / re-ordering of it ...)."""
+        cu = self.cu
         if e is None or depth > 6:
             return False
         if isinstance(e, ast.NamedExpr):
-            return is_managed(e.value, at, depth + 1)
-        if isinstance(e, ast.Call) and dotted(e.func) in COPYING and len(e.args) == 1 and not e.keywords:
-            return is_managed(e.args[0], at, depth + 1)
-        if isinstance(e, ast.Subscript) and isinstance(e.slice, ast.Slice) and e.slice.lower is None and e.slice.upper is None and e.slice.step is None:
-            return is_managed(e.value, at, depth + 1)
+            return self.is_managed(e.value, at, depth + 1)
+        if isinstance(e, ast.Starred):
+            return False
+        if isinstance(e, (ast.List, ast.Tuple)) and len(e.elts) == 1 and isinstance(e.elts[0], ast.Starred):
+            return self.is_managed(e.elts[0].value, at, depth + 1)  # [*managed]
+        if isinstance(e, ast.Call):
+            if dotted(e.func) in COPYING and len(e.args) == 1 and not e.keywords:
+                return self.is_managed(e.args[0], at, depth + 1)
+            if isinstance(e.func, ast.Attribute) and e.func.attr in ("copy", "__iter__", "__reversed__") and not e.args and not e.keywords:
+                return self.is_managed(e.func.value, at, depth + 1)
+            if (dotted(e.func) or "").endswith("cast") and len(e.args) == 2:
+                return self.is_managed(e.args[1], at, depth + 1)
+            return self._hands_on_all(e, depth)
+        if isinstance(e, ast.Subscript) and isinstance(e.slice, ast.Slice):
+            s_ = e.slice
+            full = s_.lower is None and s_.upper is None and (s_.step is None or (isinstance(s_.step, ast.UnaryOp) and isinstance(s_.step.op, ast.USub) and isinstance(s_.step.operand, ast.Constant) and s_.step.operand.value == 1)
+                                                             or (isinstance(s_.step, ast.Constant) and s_.step.value in (1, -1)))
+            return full and self.is_managed(e.value, at, depth + 1)
         if isinstance(e, ast.Name) and at is not None:
+            if bound_in_enclosing_comp(e, cu.fi.node) is not None:
+                return False
             defs = cu.rd.reaching(at, e.id)
             if len(defs) == 1:
                 d0 = next(iter(defs))
                 if d0.kind in ("assign", "walrus") and d0.index is None and d0.value is not None:
-                    return is_managed(d0.value, d0.node, depth + 1)
+                    return self.is_managed(d0.value, d0.node, depth + 1)
+                if d0.kind == "param":
+                    return e.id in self.params
             return False
-        return isinstance(e, ast.Attribute) and flow.self_ref(e.value, cu) and e.attr == attr
+        if isinstance(e, ast.Attribute) and self.flow.self_ref(e.value, cu):
+            if e.attr == self.attr:
+                return self.self_ok
+            if cu.cls is not None and self.self_ok:
+                _, what = self.flow.repo.lookup(cu.cls, e.attr)
+                if isinstance(what, FuncInfo) and id(what.node) in self.flow.by_node and any(d.endswith("property") for d in what.decorators):
+                    return self._unit_hands_on(self.flow.by_node[id(what.node)], None, 1)
+        return False
 
-    def element(target: ast.AST, it: ast.AST, at: Node | None) -> str | None:
-        """name bound to each managed local by `for <target> in <it>` (also `for i, x in enumerate(<managed>)`)."""
-        if isinstance(target, ast.Name) and is_managed(it, at):
-            return target.id
-        if isinstance(target, (ast.Tuple, ast.List)) and len(target.elts) == 2 and isinstance(target.elts[1], ast.Name) and isinstance(it, ast.Call) and dotted(it.func) == "enumerate" and it.args and is_managed(it.args[0], at):
-            return target.elts[1].id
+    def _is_count(self, e: ast.AST, depth: int = 0) -> bool:
+        """len(<managed>), or a local name holding it."""
+        if isinstance(e, ast.Call) and dotted(e.func) == "len" and len(e.args) == 1 and not e.keywords:
+            return self.is_managed(e.args[0], self.cfg.node_of(e))
+        if isinstance(e, ast.NamedExpr):
+            return self._is_count(e.value, depth)
+        if isinstance(e, ast.Name) and depth < 3:
+            n_ = self.cfg.node_of(e)
+            defs = self.cu.rd.reaching(n_, e.id) if n_ is not None else frozenset()
+            return bool(defs) and all(d.kind in ("assign", "walrus") and d.index is None and d.value is not None and self._is_count(d.value, depth + 1) for d in defs)
+        return False
+
+    def mentions(self, e: ast.AST) -> bool:
+        return any((isinstance(y, ast.Attribute) and y.attr == self.attr and self.flow.self_ref(y.value, self.cu)) or (isinstance(y, ast.Name) and y.id in self.params) for y in ast.walk(e))
+
+    def role(self, e: ast.AST | None, at: Node | None, depth: int = 0) -> str | None:
+        """what iterating e yields for every managed local: "elem" (the local), "bound" (its bound release method) or
+        "index" (its position)."""
+        if e is None or depth > 6:
+            return None
+        if self.is_managed(e, at):
+            return "elem"
+        if isinstance(e, ast.NamedExpr):
+            return self.role(e.value, at, depth + 1)
+        if isinstance(e, ast.Name) and at is not None and bound_in_enclosing_comp(e, self.cu.fi.node) is None:
+            defs = self.cu.rd.reaching(at, e.id)
+            if len(defs) == 1:
+                d0 = next(iter(defs))
+                if d0.kind in ("assign", "walrus") and d0.index is None and d0.value is not None:
+                    return self.role(d0.value, d0.node, depth + 1)
+            return None
+        if isinstance(e, ast.Call) and not e.keywords:
+            d = dotted(e.func)
+            if d in COPYING and len(e.args) == 1:
+                return self.role(e.args[0], at, depth + 1)
+            if d == "map" and len(e.args) == 2 and self.role(e.args[1], at, depth + 1) == "elem" and self.rel.binder(e.args[0], self.cu):
+                return "bound"
+            if d == "range" and (len(e.args) == 1 or (len(e.args) == 2 and isinstance(e.args[0], ast.Constant) and e.args[0].value == 0)):
+                if self._is_count(e.args[-1]):
+                    return "index"
+            return None
+        if isinstance(e, (ast.GeneratorExp, ast.ListComp, ast.SetComp)) and len(e.generators) == 1:
+            g = e.generators[0]
+            if g.ifs or g.is_async or not isinstance(g.target, ast.Name) or self.role(g.iter, at, depth + 1) != "elem":
+                return None
+            v = g.target.id
+            if astq.is_name(e.elt, v):
+                return "elem"
+            if self.rel.bound(e.elt, self.cu, lambda x: astq.is_name(x, v) and bound_in_enclosing_comp(x, self.cu.fi.node) is g):
+                return "bound"
         return None
 
-    def never_left_early(loop: ast.AST) -> bool:
-        head = cfg.node_of(loop)
+    def element(self, target: ast.AST, it: ast.AST, at: Node | None) -> tuple[str, str] | None:
+        """(name, role) bound for each managed local by `for <target> in <it>` (also `for i, x in enumerate(<it>)`)."""
+        if isinstance(target, ast.Name):
+            r = self.role(it, at)
+            return (target.id, r) if r is not None else None
+        if isinstance(target, (ast.Tuple, ast.List)) and len(target.elts) == 2 and isinstance(target.elts[1], ast.Name) and isinstance(it, ast.Call) and dotted(it.func) == "enumerate" and it.args:
+            r = self.role(it.args[0], at)
+            return (target.elts[1].id, r) if r in ("elem", "bound") else None
+        return None
+
+    def _subject_of(self, var: str, role: str, is_var):
+        """recogniser of "the managed local of this iteration" in terms of the loop variable."""
+        if role == "index":
+            return lambda e: isinstance(e, ast.Subscript) and not isinstance(e.slice, ast.Slice) and is_var(e.slice) and self.is_managed(e.value, self.cfg.node_of(e))
+        return is_var
+
+    def _releases(self, var: str, role: str, is_var, within: ast.AST, head: Node | None) -> list[ast.Call]:
+        if role == "bound":
+            return [c_ for c_ in walk_no_nested(within) if isinstance(c_, ast.Call) and not c_.args and not c_.keywords and self.rel.subject(c_.func, self.cu, is_var, head)]
+        return self.rel.calls(self.cu, self._subject_of(var, role, is_var), 0, head, within)
+
+    # -- control flow ------------------------------------------------------------------------------------------
+    def never_left_early(self, loop: ast.AST) -> bool:
+        head = self.cfg.node_of(loop)
         if head is None:
             return False
-        r = cfg.reach(cfg.succ(head, "T"), avoid_nodes=[head])
-        return cfg.exit.id not in r and cfg.raise_exit.id not in r
+        r = self.cfg.reach(self.cfg.succ(head, "T"), avoid_nodes=[head])
+        return self.cfg.exit.id not in r and self.cfg.raise_exit.id not in r
 
-    def consumer_verdict(lazy: ast.AST) -> tuple[str, str]:
+    def consumer_verdict(self, lazy: ast.AST) -> tuple[str, str]:
         """who pulls a lazy iterator (generator expression / map object), and does it pull to the end?"""
         par = astq.parent(lazy)
         if isinstance(par, ast.Call) and par.args and par.args[0] is lazy:
@@ -647,141 +1093,427 @@ def _cleanup(ctx: Ctx, flow: Flow, cu: Unit, attr: str, rl: FuncInfo) -> None:
             if d in EXHAUSTING:
                 return "ok", f"pulled to the end by `{d}()`"
             return "unknown", f"pulled by `{d}(...)`: unknown whether to the end"
+        if isinstance(par, ast.Starred) and isinstance(astq.parent(par), (ast.List, ast.Tuple, ast.Set)) and isinstance(getattr(astq.parent(par), "ctx", ast.Load()), ast.Load):
+            return "ok", "unpacked to the end into a display (`[*it]`)"
         if isinstance(par, (ast.For, ast.AsyncFor)) and par.iter is lazy:
-            if never_left_early(par):
+            if self.never_left_early(par):
                 return "ok", "pulled to the end by a for loop that is never left early"
             return "bad", "the for loop pulling it can be left early (break / return / raise)"
         if isinstance(par, ast.Expr):
             return "bad", "it is never consumed: nothing runs"
         return "unknown", f"handed to `{norm(par) if par is not None else '?'}`: unknown whether it is pulled to the end"
 
-    empty = _empty_edges(flow, cu, is_managed)
+    def why_skipped(self, x: ast.AST, root: ast.AST | None) -> str | None:
+        """why_conditional, except that being skipped exactly when nothing is managed does not count:
+        `self.locals and self._release_all()`, `[...] if self.locals else None`."""
+        w_ = why_conditional(x, root)
+        if w_ is None or root is None:
+            return w_
+        at = self.cfg.node_of(x)
+        cur: ast.AST = x
+        while cur is not root:
+            par = astq.parent(cur)
+            if par is None:
+                return w_
+            if isinstance(par, ast.BoolOp) and cur is not par.values[0]:
+                i = next(i for i, v in enumerate(par.values) if v is cur)
+                if not (isinstance(par.op, ast.And) and all(self.is_managed(v, at) or self._is_count(v) for v in par.values[:i])):
+                    return w_
+            elif isinstance(par, ast.IfExp) and cur is not par.test:
+                t_ = par.test
+                neg = isinstance(t_, ast.UnaryOp) and isinstance(t_.op, ast.Not)
+                t_ = t_.operand if neg else t_  # type: ignore[union-attr]
+                if not ((self.is_managed(t_, at) or self._is_count(t_)) and (cur is par.orelse) == neg):
+                    return w_
+            elif isinstance(par, (ast.Lambda, ast.FunctionDef, ast.AsyncFunctionDef, ast.comprehension, ast.ListComp, ast.SetComp, ast.DictComp, ast.GeneratorExp, ast.Assert)) or (isinstance(par, ast.Compare) and cur is not par.left):
+                return w_
+            cur = par
+        return None
 
-    def always_reached(node: Node | None) -> bool:
-        return node is not None and cfg.exit.id not in cfg.reach(cfg.entry, avoid_nodes=[node], avoid_edges=empty)
+    def always_reached(self, node: Node | None) -> bool:
+        return node is not None and self.cfg.exit.id not in self.cfg.reach(self.cfg.entry, avoid_nodes=[node], avoid_edges=self.empty)
 
-    verdicts: list[tuple[str, str, ast.AST, str]] = []  # status, fact, node, construct
+    def _bypass(self, node: Node | None, what: str) -> tuple[str, str]:
+        """verdict for an iteration that some path through the method does not reach."""
+        known = {id(t_) for t_, _ in self.empty} | self.understood
+        odd = [t_ for t_ in self.cfg.tests() if t_.kind == "test" and t_.ast is not None and id(t_) not in known and self.mentions(t_.ast)]
+        if odd:
+            return "unknown", f"{what} is bypassed on some path, under a test of the managed locals that is not understood (`{odd[0].text()}`)"
+        return "bad", f"a path through the method on which locals may be managed bypasses {what}"
 
-    for x in cu.walk():
-        # ---- for statement ---------------------------------------------------------------------------
-        if isinstance(x, (ast.For, ast.AsyncFor)):
-            head = cfg.node_of(x)
-            var = element(x.target, x.iter, head)
-            if var is None or head is None:
+    # -- while loops: a cursor over the managed locals ------------------------------------------------------------
+    def _region(self, head: Node) -> set[int]:
+        """ids of the nodes of the loop headed by ``head`` (reachable from it, and it from them)."""
+        back: set[int] = set()
+        st = [head]
+        while st:
+            n = st.pop()
+            for p, _ in n.preds:
+                if p.id not in back:
+                    back.add(p.id)
+                    st.append(p)
+        return (self.cfg.reach(head) & back) | {head.id}
+
+    def _while(self, x: ast.While) -> Verdict | None:
+        """`while` driven by a cursor over the managed locals: a work list (a copy that is popped until it is empty), an
+        iterator (`next(it, sentinel)` / `next(it)` + StopIteration) or an index (`i < len(locals)`).  Every element the
+        cursor hands out must be released before the next one is taken, and the loop may end only when the cursor is done."""
+        cu, cfg, flow = self.cu, self.cfg, self.flow
+        head = cfg.node_of(x)
+        if head is None or head.kind != "join":
+            return None
+        region = self._region(head)
+        inside = [cfg.nodes[i] for i in sorted(region)]
+        key = f"{self.what} releases in a while loop"
+        at_head = {}
+        names = {y.id for n in inside if n.ast is not None and n is not head for y in ast.walk(n.ast) if isinstance(y, ast.Name) and isinstance(y.ctx, ast.Load)}
+        for nm in sorted(names):
+            defs = cu.rd.reaching(head, nm)
+            outer = [d for d in defs if d.node is None or d.node.id not in region]
+            inner = [d for d in defs if d.node is not None and d.node.id in region]
+            if len(outer) != 1 or outer[0].kind != "assign" or outer[0].index is not None or outer[0].value is None:
                 continue
-            inside = {id(y) for st in x.body for y in ast.walk(st)}
+            v = outer[0].value
+            kind = None
+            if not inner:
+                if isinstance(v, ast.Call) and dotted(v.func) in ("iter", "reversed") and len(v.args) == 1 and self.role(v.args[0], outer[0].node) == "elem":
+                    kind = "iter"
+                elif self.is_managed(v, outer[0].node) and (set(flow.tags(v, cu)) == {FRESH} or (isinstance(v, ast.Call) and (dotted(v.func) or "").rsplit(".", 1)[-1] == "deque")):
+                    kind = "work"
+                elif isinstance(v, ast.Call) and (dotted(v.func) or "").rsplit(".", 1)[-1] == "deque" and len(v.args) == 1 and self.is_managed(v.args[0], outer[0].node):
+                    kind = "work"
+            elif isinstance(v, ast.Constant) and v.value == 0 and type(v.value) is int:
+                kind = "index"
+            if kind is not None:
+                at_head[nm] = (kind, outer[0], inner)
+        if not at_head:
+            return None
+        exits = [(n, l, s) for n in inside for s, l in n.succs if s.id not in region and l != "exc"]
+        starts = [s for s, _ in head.succs]
 
-            def is_elem(e: ast.AST, var=var, head=head) -> bool:
-                if not astq.is_name(e, var):
+        def left_early(allowed) -> str | None:
+            badx = [(n, l, s) for n, l, s in exits if not allowed(n, l)]
+            if not badx:
+                return None
+            n = badx[0][0]
+            return f"the loop can be left at `{n.text()}` before every managed local was released"
+
+        for nm, (kind, d0, inner) in sorted(at_head.items()):
+            def is_cur(e: ast.AST | None, nm=nm, d0=d0) -> bool:
+                if not astq.is_name(e, nm):
                     return False
                 n_ = cfg.node_of(e)
-                defs = cu.rd.reaching(n_, var) if n_ is not None else frozenset()
-                return bool(defs) and all(d.kind == "for" and d.node is head for d in defs)
+                return n_ is not None and set(cu.rd.reaching(n_, nm)) == {d0}
 
-            rel = [c_ for c_ in _release_calls(flow, cu, is_elem, rl) if id(c_) in inside]
-            key = f"cleanup releases {var}"
-            if not rel:
-                verdicts.append(("bad", "no call in the loop body releases the loop variable (`<it>.__release_local__()`, `release_local(<it>)`, or a helper of the module that does so on every path)", x, key))
+            if kind in ("iter", "work"):
+                def is_pull(c_: ast.AST, kind=kind, is_cur=is_cur) -> bool:
+                    if not isinstance(c_, ast.Call) or c_.keywords:
+                        return False
+                    if kind == "iter":
+                        return dotted(c_.func) == "next" and 1 <= len(c_.args) <= 2 and is_cur(c_.args[0])
+                    f = c_.func
+                    return isinstance(f, ast.Attribute) and f.attr in ("pop", "popleft") and is_cur(f.value) and (
+                        not c_.args or (f.attr == "pop" and len(c_.args) == 1 and isinstance(c_.args[0], ast.Constant) and c_.args[0].value in (0, -1)))
+
+                loads = [y for y in cu.walk() if isinstance(y, ast.Name) and y.id == nm and isinstance(y.ctx, ast.Load) and is_cur(y)]
+                pulls = [c_ for c_ in walk_no_nested(x) if is_pull(c_)]
+                odd = []
+                for y in loads:
+                    par = astq.parent(y)
+                    n_ = cfg.node_of(y)
+                    if n_ is None or n_.id not in region:
+                        odd.append(y)
+                    elif isinstance(par, ast.Call) and is_pull(par):
+                        continue
+                    elif isinstance(par, ast.Attribute) and is_pull(astq.parent(par)):
+                        continue
+                    elif kind == "work" and (n_.ast is y or (isinstance(par, ast.Call) and dotted(par.func) == "len") or (isinstance(par, ast.UnaryOp) and isinstance(par.op, ast.Not))):
+                        continue
+                    else:
+                        odd.append(y)
+                if not pulls:
+                    continue
+                if odd:
+                    return ("unknown", f"the cursor `{nm}` over the managed locals is also used as `{norm(astq.parent(odd[0]) or odd[0])}`: not understood", x, key)
+                # every element handed out is released before the loop comes round again
+                for p_ in pulls:
+                    pn = cfg.node_of(p_)
+                    if pn is None or why_conditional(p_, pn.ast) is not None:
+                        return ("unknown", f"`{norm(p_)}` is evaluated conditionally inside one statement", x, key)
+                    rel = self.rel.calls(cu, lambda e, p_=p_: e is p_, 0, head, x)
+                    rnodes = [n_ for n_ in (flow.run_node(c_, cu) for c_ in rel) if n_ is not None]
+                    if not rnodes:
+                        odd_use = self.rel.unclear_use(lambda e, p_=p_: self.rel.subject(e, cu, lambda z: z is p_, head), ast.Module(body=x.body, type_ignores=[]), cu)
+                        par_ = astq.parent(p_)
+                        if odd_use is None and not rel and isinstance(par_, ast.Call) and dotted(par_.func) not in INERT_CALLS:
+                            odd_use = norm(par_)
+                        if odd_use is not None and not rel:
+                            return ("unknown", f"the local taken by `{norm(p_)}` is handed to `{odd_use}`: not understood whether that releases it", x, key)
+                        return ("bad", f"the local taken by `{norm(p_)}` is not released" + (f": `{norm(rel[0])}` {flow.why_not_run(rel[0], cu)}" if rel else ""), x, key)
+                    if not any(r_ is pn for r_ in rnodes):
+                        st_ = [s for s, l in pn.succs if l != "exc" and not any(s is r_ for r_ in rnodes)]
+                        if st_ and head.id in cfg.reach(st_, avoid_nodes=rnodes):
+                            return ("bad", f"a path from `{norm(p_)}` back to the loop head skips the release of the local it took", x, key)
+                # the loop ends only when the cursor is exhausted
+                if kind == "work":
+                    done = _empty_edges(flow, cu, lambda e, at, is_cur=is_cur: is_cur(e))
+                    why = left_early(lambda n, l: any(n is t_ and l == lab for t_, lab in done))
+                else:
+                    def done_edge(n: Node, l: str | None) -> bool:
+                        a = n.ast
+                        if n.kind == "test" and isinstance(a, ast.Compare) and len(a.ops) == 1:
+                            s_ = a.comparators[0]
+                            for p_ in pulls:
+                                if len(p_.args) == 2 and ast.dump(p_.args[1]) == ast.dump(s_) and isinstance(s_, (ast.Constant, ast.Name)) and self.rel.subject(a.left, cu, lambda z, p_=p_: z is p_, head):
+                                    return l == ("T" if isinstance(a.ops[0], (ast.Is, ast.Eq)) else "F") and isinstance(a.ops[0], (ast.Is, ast.Eq, ast.IsNot, ast.NotEq))
+                        if isinstance(a, ast.Break):
+                            for h_ in inside:
+                                if h_.kind == "handler" and isinstance(h_.ast, ast.ExceptHandler) and handler_catches(h_.ast, "StopIteration") and n.id not in cfg.reach(starts, avoid_nodes=[h_]):
+                                    tr = astq.parent(h_.ast)
+                                    if isinstance(tr, ast.Try) and any(len(p_.args) == 1 and any(y is p_ for st_ in tr.body for y in ast.walk(st_)) for p_ in pulls):
+                                        return True
+                        return False
+
+                    why = left_early(done_edge)
+                if why is not None:
+                    return ("bad", why, x, key)
+                if not self.always_reached(head):
+                    st_, fact = self._bypass(head, "the release loop")
+                    return (st_, fact, x, key)
+                return ("ok", f"every local taken from the {'work list' if kind == 'work' else 'iterator'} `{nm}` ({', '.join(sorted({norm(p_) for p_ in pulls}))}) is released before the next one, and the loop ends only when `{nm}` is exhausted", x, key)
+            # ---- index cursor ----------------------------------------------------------------------------------------
+            incs = [d for d in inner]
+            if not incs or not all(
+                    (d.kind == "aug" and isinstance(d.stmt, ast.AugAssign) and isinstance(d.stmt.op, ast.Add) and isinstance(d.stmt.value, ast.Constant) and d.stmt.value.value == 1)
+                    or (d.kind == "assign" and isinstance(d.value, ast.BinOp) and isinstance(d.value.op, ast.Add) and astq.is_name(d.value.left, nm) and isinstance(d.value.right, ast.Constant) and d.value.right.value == 1)
+                    for d in incs) or len({id(d.node) for d in incs}) != 1:
                 continue
+            inc = incs[0].node
+            head_defs = set(cu.rd.reaching(head, nm))
+
+            def is_idx(e: ast.AST, nm=nm, head_defs=head_defs) -> bool:
+                if not astq.is_name(e, nm):
+                    return False
+                n_ = cfg.node_of(e)
+                return n_ is not None and set(cu.rd.reaching(n_, nm)) == head_defs
+
+            def is_count(e: ast.AST, depth: int = 0) -> bool:
+                if isinstance(e, ast.Call) and dotted(e.func) == "len" and len(e.args) == 1 and self.is_managed(e.args[0], cfg.node_of(e)):
+                    return True
+                if isinstance(e, ast.Name) and depth < 3:
+                    n_ = cfg.node_of(e)
+                    defs = cu.rd.reaching(n_, e.id) if n_ is not None else frozenset()
+                    return bool(defs) and all(d.kind == "assign" and d.index is None and d.value is not None and d.node is not None and d.node.id not in region and is_count(d.value, depth + 1) for d in defs)
+                return False
+
+            def done_edge(n: Node, l: str | None) -> bool:
+                a = n.ast
+                if n.kind != "test" or not isinstance(a, ast.Compare) or len(a.ops) != 1:
+                    return False
+                le, op, ri = a.left, a.ops[0], a.comparators[0]
+                if is_idx(le) and is_count(ri) and isinstance(op, (ast.Lt, ast.NotEq)):
+                    return l == "F"
+                if is_count(le) and is_idx(ri) and isinstance(op, (ast.Gt, ast.NotEq)):
+                    return l == "F"
+                if is_idx(le) and is_count(ri) and isinstance(op, (ast.GtE, ast.Eq)):
+                    return l == "T"
+                if is_count(le) and is_idx(ri) and isinstance(op, (ast.LtE, ast.Eq)):
+                    return l == "T"
+                return False
+
+            if not any(done_edge(n, l) for n, l, _ in exits):
+                continue
+            subj = self._subject_of(nm, "index", is_idx)
+            rel = self.rel.calls(cu, subj, 0, head, x)
             rnodes = [n_ for n_ in (flow.run_node(c_, cu) for c_ in rel) if n_ is not None]
             if not rnodes:
-                verdicts.append(("bad", f"`{norm(rel[0])}` is not executed in every iteration: {flow.why_not_run(rel[0], cu)}", x, key))
-                continue
-            starts = [s for s in cfg.succ(head, "T") if not any(s is r_ for r_ in rnodes)]
-            r = cfg.reach(starts, avoid_nodes=rnodes) if starts else set()
-            if any(n_.id in r for n_ in (head, cfg.exit, cfg.raise_exit)):
-                verdicts.append(("bad", "a path through the loop body (or out of the loop) skips the release", x, key))
-            elif not never_left_early(x):
-                verdicts.append(("bad", "the loop can be left (break / return / raise) before every managed local was released", x, key))
-            elif not always_reached(head):
-                verdicts.append(("bad", "a path through the method on which locals may be managed bypasses the release loop", x, key))
-            else:
-                verdicts.append(("ok", f"`{norm(rel[0])}` is executed in every iteration, the loop is never left early and is reached on every path (paths where nothing is managed excepted)", x, key))
-        # ---- comprehension ---------------------------------------------------------------------------
-        elif isinstance(x, (ast.ListComp, ast.SetComp, ast.DictComp, ast.GeneratorExp)):
-            node = cfg.node_of(x)
-            g0 = x.generators[0]
-            var = element(g0.target, g0.iter, node)
-            if var is None or node is None:
-                continue
-            inside = {id(y) for y in ast.walk(x)}
+                if rel:
+                    return ("bad", f"`{norm(rel[0])}` is not executed in every iteration: {flow.why_not_run(rel[0], cu)}", x, key)
+                odd_use = self.rel.unclear_use(is_idx, ast.Module(body=x.body, type_ignores=[]), cu)
+                return ("unknown" if odd_use else "bad", f"no call in the loop releases `<locals>[{nm}]`" + (f"; `{odd_use}` is not understood" if odd_use else ""), x, key)
+            round_ = cfg.reach(starts, avoid_nodes=rnodes + [head])
+            if any(p.id in round_ for p, _ in head.preds if p.id in region):
+                return ("bad", "a path through the loop body skips the release", x, key)
+            round_i = cfg.reach(starts, avoid_nodes=[inc, head])
+            if any(p.id in round_i for p, _ in head.preds if p.id in region):
+                return ("unknown", f"`{nm}` is not advanced on every path through the loop body", x, key)
+            if inc.id in cfg.reach([s for s, l in inc.succs if l != "exc" and s is not head], avoid_nodes=[head]):
+                return ("unknown", f"`{nm}` may be advanced more than once per iteration", x, key)
+            why = left_early(done_edge)
+            if why is not None:
+                return ("bad", why, x, key)
+            if not self.always_reached(head):
+                st_, fact = self._bypass(head, "the release loop")
+                return (st_, fact, x, key)
+            return ("ok", f"`{norm(rel[0])}` for every index `{nm}` from 0 up to the number of managed locals, advanced once per iteration; the loop ends only when `{nm}` reaches it", x, key)
+        return None
 
-            def is_elem(e: ast.AST, var=var, g0=g0) -> bool:
-                return isinstance(e, ast.Name) and e.id == var and bound_in_enclosing_comp(e, cu.fi.node) is g0
+    # -- the scan ------------------------------------------------------------------------------------------------
+    def verdicts(self) -> list[Verdict]:
+        cu, cfg, flow = self.cu, self.cfg, self.flow
+        out: list[Verdict] = []
+        w = self.what
+        for x in cu.walk():
+            # ---- for statement ---------------------------------------------------------------------------
+            if isinstance(x, (ast.For, ast.AsyncFor)):
+                head = cfg.node_of(x)
+                vr = self.element(x.target, x.iter, head)
+                if vr is None or head is None:
+                    continue
+                var, role = vr
+                body = ast.Module(body=x.body, type_ignores=[])
 
-            rel = [c_ for c_ in _release_calls(flow, cu, is_elem, rl) if id(c_) in inside]
-            key = "cleanup releases in a comprehension"
-            if not rel:
-                continue  # a comprehension over the locals that releases nothing: not the release iteration
-            whys = [why_conditional(c_, node.ast, stop=x) for c_ in rel]
-            if g0.ifs:
-                verdicts.append(("bad", f"the comprehension filters the managed locals (`if {norm(g0.ifs[0])}`): the others are not released", x, key))
-            elif all(w is not None for w in whys):
-                verdicts.append(("bad", f"`{norm(rel[0])}` is not executed for every element: {whys[0]}", x, key))
-            else:
-                status, fact = ("ok", "built eagerly, element by element") if not isinstance(x, ast.GeneratorExp) else consumer_verdict(x)
-                outer = astq.parent(x) if isinstance(x, ast.GeneratorExp) and isinstance(astq.parent(x), ast.Call) else x
-                w = why_conditional(outer, node.ast)
-                if status == "ok" and w is not None:
-                    status, fact = "bad", f"the comprehension itself is not always evaluated: {w}"
-                elif status == "ok" and not always_reached(node):
-                    status, fact = "bad", "a path through the method on which locals may be managed bypasses the releasing comprehension"
-                verdicts.append((status, f"`{norm(rel[0])}` for every element of `{norm(g0.iter)}`; {fact}", x, key))
-        # ---- map(release, managed) -------------------------------------------------------------------
-        elif isinstance(x, ast.Call) and dotted(x.func) == "map" and len(x.args) == 2 and not x.keywords:
-            node = cfg.node_of(x)
-            if node is None or not is_managed(x.args[1], node):
-                continue
-            fn = x.args[0]
-            target = None
-            if isinstance(fn, ast.Name) and not cu.rd.reaching(node, fn.id) and fn.id in flow.module.functions:
-                target = flow.unit_of(flow.module.functions[fn.id])
-            releasing = False
-            if isinstance(fn, ast.Lambda) and len(fn.args.args) == 1 and isinstance(fn.body, ast.Call):
-                # map(lambda x: x.__release_local__(), ...) / map(lambda x: release_local(x), ...): the body IS the release
-                b, pn = fn.body, fn.args.args[0].arg
-                releasing = (isinstance(b.func, ast.Attribute) and b.func.attr == RELEASE and astq.is_name(b.func.value, pn) and not b.args) or (
-                    isinstance(b.func, ast.Name) and flow.module.functions.get(b.func.id) is rl and not cu.rd.reaching(node, b.func.id) and len(b.args) == 1 and astq.is_name(b.args[0], pn))
-            if target is not None:
-                a_ = target.fi.node.args
-                pos = [y.arg for y in a_.posonlyargs + a_.args]
-                releasing = bool(pos) and (target.fi is rl or _releases_param(flow, target, pos[0], rl, 1))
-            if not releasing:
-                continue
-            key = "cleanup releases through map"
-            status, fact = consumer_verdict(x)
-            w = why_conditional(x, node.ast)
-            if status == "ok" and w is not None:
-                status, fact = "bad", f"the map is not always evaluated: {w}"
-            elif status == "ok" and not always_reached(node):
-                status, fact = "bad", "a path through the method on which locals may be managed bypasses it"
-            verdicts.append((status, f"`{norm(x)}`: {fact}", x, key))
+                def is_var(e: ast.AST, var=var, head=head) -> bool:
+                    if not astq.is_name(e, var):
+                        return False
+                    n_ = cfg.node_of(e)
+                    defs = cu.rd.reaching(n_, var) if n_ is not None else frozenset()
+                    return bool(defs) and all(d.kind == "for" and d.node is head for d in defs)
 
+                rel = self._releases(var, role, is_var, body, head)
+                key = f"{w} releases {var}"
+                if not rel:
+                    odd = self.rel.unclear_use(is_var, body, cu)
+                    if odd is not None:
+                        out.append(("unknown", f"the loop over the managed locals hands `{var}` to `{odd}`: not understood whether that releases it", x, key))
+                    else:
+                        out.append(("bad", "no call in the loop body releases the loop variable (`<it>.__release_local__()`, `release_local(<it>)`, or a helper of the module that does so on every path)", x, key))
+                    continue
+                rnodes = [n_ for n_ in (flow.run_node(c_, cu) for c_ in rel) if n_ is not None]
+                if not rnodes:
+                    out.append(("bad", f"`{norm(rel[0])}` is not executed in every iteration: {flow.why_not_run(rel[0], cu)}", x, key))
+                    continue
+                starts = [s for s in cfg.succ(head, "T") if not any(s is r_ for r_ in rnodes)]
+                r = cfg.reach(starts, avoid_nodes=rnodes) if starts else set()
+                if any(n_.id in r for n_ in (head, cfg.exit, cfg.raise_exit)):
+                    out.append(("bad", "a path through the loop body (or out of the loop) skips the release", x, key))
+                elif not self.never_left_early(x):
+                    out.append(("bad", "the loop can be left (break / return / raise) before every managed local was released", x, key))
+                elif not self.always_reached(head):
+                    st, fact = self._bypass(head, "the release loop")
+                    out.append((st, fact, x, key))
+                else:
+                    out.append(("ok", f"`{norm(rel[0])}` is executed in every iteration, the loop is never left early and is reached on every path (paths where nothing is managed excepted)", x, key))
+            # ---- comprehension ---------------------------------------------------------------------------
+            elif isinstance(x, (ast.ListComp, ast.SetComp, ast.DictComp, ast.GeneratorExp)):
+                node = cfg.node_of(x)
+                g0 = x.generators[0]
+                vr = self.element(g0.target, g0.iter, node)
+                if vr is None or node is None:
+                    continue
+                var, role = vr
+
+                def is_var(e: ast.AST, var=var, g0=g0) -> bool:
+                    return isinstance(e, ast.Name) and e.id == var and bound_in_enclosing_comp(e, cu.fi.node) is g0
+
+                rel = self._releases(var, role, is_var, x, None)
+                key = f"{w} releases in a comprehension"
+                if not rel:
+                    continue  # a comprehension over the locals that releases nothing: not the release iteration
+                whys = [why_conditional(c_, node.ast, stop=x) for c_ in rel]
+                if g0.ifs:
+                    out.append(("bad", f"the comprehension filters the managed locals (`if {norm(g0.ifs[0])}`): the others are not released", x, key))
+                elif all(w_ is not None for w_ in whys):
+                    out.append(("bad", f"`{norm(rel[0])}` is not executed for every element: {whys[0]}", x, key))
+                else:
+                    status, fact = ("ok", "built eagerly, element by element") if not isinstance(x, ast.GeneratorExp) else self.consumer_verdict(x)
+                    outer = astq.parent(x) if isinstance(x, ast.GeneratorExp) and isinstance(astq.parent(x), ast.Call) else x
+                    w_ = self.why_skipped(outer, node.ast)
+                    if status == "ok" and w_ is not None:
+                        status, fact = "bad", f"the comprehension itself is not always evaluated: {w_}"
+                    elif status == "ok" and not self.always_reached(node):
+                        status, fact = self._bypass(node, "the releasing comprehension")
+                    out.append((status, f"`{norm(rel[0])}` for every element of `{norm(g0.iter)}`; {fact}", x, key))
+            # ---- map(release, managed) -------------------------------------------------------------------
+            elif isinstance(x, ast.Call) and dotted(x.func) == "map" and len(x.args) == 2 and not x.keywords:
+                node = cfg.node_of(x)
+                if node is None or self.role(x.args[1], node) != "elem" or not self.rel.releaser(x.args[0], cu):
+                    continue
+                key = f"{w} releases through map"
+                status, fact = self.consumer_verdict(x)
+                w_ = self.why_skipped(astq.parent(x) if isinstance(astq.parent(x), ast.Call) and status == "ok" else x, node.ast)
+                if status == "ok" and w_ is not None:
+                    status, fact = "bad", f"the map is not always evaluated: {w_}"
+                elif status == "ok" and not self.always_reached(node):
+                    status, fact = self._bypass(node, "it")
+                out.append((status, f"`{norm(x)}`: {fact}", x, key))
+            # ---- while loop over a cursor ------------------------------------------------------------------
+            elif isinstance(x, ast.While):
+                v_ = self._while(x)
+                if v_ is not None:
+                    out.append(v_)
+            # ---- the iteration lives in a helper that is handed the managed locals ----------------------------
+            elif isinstance(x, ast.Call) and self.depth < 2:
+                callees = flow.callees(x, cu)
+                if len(callees) != 1:
+                    continue
+                tu, off = callees[0]
+                if tu is cu or (self.rel.rl is not None and tu.fi is self.rel.rl):
+                    continue
+                if isinstance(tu.fi.node, ast.AsyncFunctionDef) or any(isinstance(n, (ast.Yield, ast.YieldFrom)) for n in tu.walk()):
+                    continue
+                node = cfg.node_of(x)
+                params = set()
+                a = tu.fi.node.args
+                for nm in [y.arg for y in a.posonlyargs + a.args + a.kwonlyargs]:
+                    how, arg = flow.site_arg(tu, nm, x, off)
+                    if how == "arg" and arg is not None and self.is_managed(arg, node):
+                        params.add(nm)
+                same_obj = self.self_ok and off == 1 and tu.cls is cu.cls
+                if not params and not same_obj:
+                    continue
+                sub = _Scan(flow, self.rel, tu, self.attr, same_obj, params, self.depth + 1, what=w).verdicts()
+                if not sub or node is None:
+                    continue
+                key = f"{w} releases through {tu.fi.name}"
+                best = next((v for v in sub if v[0] == "ok"), None)
+                if best is None:
+                    for st, fact, _, _ in sub:
+                        out.append((st, f"in {tu.fi.qualname}, called as `{norm(x)}`: {fact}", x, key))
+                    continue
+                w_ = self.why_skipped(x, node.ast)
+                if w_ is not None:
+                    out.append(("bad", f"`{norm(x)}` (which holds the release iteration) is not always evaluated: {w_}", x, key))
+                elif not self.always_reached(node):
+                    st, fact = self._bypass(node, f"the call of {tu.fi.name}")
+                    out.append((st, fact, x, key))
+                else:
+                    out.append(("ok", f"`{norm(x)}` is executed on every path; in {tu.fi.qualname}: {best[1]}", x, key))
+        return out
+
+
+def _cleanup(ctx: Ctx, flow: Flow, cu: Unit, attr: str, rl: FuncInfo) -> None:
+    """LocalManager.cleanup: some iteration over ALL managed locals executes a release of the element in EVERY
+    iteration (see _Scan), in cleanup itself or in a helper of the module that cleanup hands the locals to."""
+    cleanup = cu.fi
+    scan = _Scan(flow, _Rel(flow, rl), cu, attr)
+    verdicts = scan.verdicts()
     oks = [v for v in verdicts if v[0] == "ok"]
-    fact0 = f"{len(verdicts)} iteration(s) over self.{attr} (for loop / comprehension / map)"
+    fact0 = f"{len(verdicts)} iteration(s) over self.{attr} (for loop / comprehension / map, here or in a helper)"
     if not verdicts:
-        # why not?  an iteration over only a part of the container is a defect; a release in a shape that is not modelled
-        # (while loop over a work list, recursion, a callable built elsewhere ...) cannot be decided either way
-        def mentions(e: ast.AST) -> bool:
-            return any(isinstance(y, ast.Attribute) and y.attr == attr and flow.self_ref(y.value, cu) for y in ast.walk(e))
-
-        partial_ = [it for it in ([x.iter for x in cu.walk() if isinstance(x, (ast.For, ast.AsyncFor))] + [g.iter for x in cu.walk() if isinstance(x, (ast.ListComp, ast.SetComp, ast.DictComp, ast.GeneratorExp)) for g in x.generators])
-                    if any(isinstance(y, ast.Subscript) and is_managed(y.value, cfg.node_of(y)) and not is_managed(y, cfg.node_of(y)) for y in ast.walk(it))]
-        releasing_somehow = any(
-            isinstance(y, ast.Call) and ((isinstance(y.func, ast.Attribute) and y.func.attr == RELEASE) or any(tu.fi is rl for tu, _ in flow.callees(y, cu)) or any(astq.is_name(a_, rl.name) for a_ in y.args))
-            for y in ast.walk(cleanup.node))
+        # why not?  an iteration over only a part of the container is a defect, a method that does not touch the container
+        # at all releases nothing; anything else that uses the container is a shape that is not modelled (while loop over a
+        # work list, recursion, a callable built elsewhere ...): cannot be decided either way
+        cfg = cu.cfg
+        its = [x.iter for x in cu.walk() if isinstance(x, (ast.For, ast.AsyncFor))] + [g.iter for x in cu.walk() if isinstance(x, (ast.ListComp, ast.SetComp, ast.DictComp, ast.GeneratorExp)) for g in x.generators]
+        partial_ = [it for it in its
+                    if any(isinstance(y, ast.Subscript) and isinstance(y.slice, ast.Slice) and scan.is_managed(y.value, cfg.node_of(y)) and not scan.is_managed(y, cfg.node_of(y)) for y in ast.walk(it))]
+        uses_self = any(isinstance(y, ast.Call) and isinstance(y.func, ast.Attribute) and flow.self_ref(y.func.value, cu) for y in cu.walk()) or \
+            any(isinstance(y, ast.Call) and any(flow.self_ref(a_, cu) for a_ in y.args) for y in cu.walk())
         if partial_:
             fact0 = f"iterates over `{norm(partial_[0])}`: only a part of self.{attr}"
-        elif releasing_somehow and mentions(cleanup.node):
-            ctx.error(f"R18.2: LocalManager.cleanup uses self.{attr} and releases something, but not in an iteration this rule understands (for loop / comprehension / map over the container): cannot decide whether every managed local is released")
+        elif scan.mentions(cleanup.node) or uses_self:
+            ctx.error(f"R18.2: LocalManager.cleanup uses self.{attr} (or hands the manager on), but not in an iteration this rule understands (for loop / comprehension / map over the container, here or in a helper of the module): cannot decide whether every managed local is released")
             return
+        else:
+            fact0 = f"the method never touches self.{attr}: nothing is released"
     ctx.ob("R18.2", "LocalManager.cleanup iterates over all managed locals", bool(verdicts), fact0, cleanup, cleanup.node, "cleanup loop")
     if oks:
         for _, fact, node_, key in oks:
             ctx.ob("R18.2", "LocalManager.cleanup releases each managed local unconditionally", True, fact, cleanup, node_, key)
         return
     if any(v[0] == "unknown" for v in verdicts) and not any(v[0] == "bad" for v in verdicts):
-        ctx.error("R18.2: LocalManager.cleanup releases its locals through a lazy iterator whose consumer is not understood (" + "; ".join(v[1] for v in verdicts if v[0] == "unknown") + ")")
+        ctx.error("R18.2: LocalManager.cleanup releases its locals in a way that is not understood (" + "; ".join(v[1] for v in verdicts if v[0] == "unknown") + ")")
         return
     for status, fact, node_, key in verdicts:
         if status == "bad":
@@ -806,6 +1538,9 @@ def _r2(ctx: Ctx, flow: Flow, storage, kinds: dict[str, str]) -> None:
                f"{len(sets)} `.set` call(s)" + ("" if covered else f"; {cond}" if cond else "; a normal path through the method binds nothing: the payload stays (or is emptied in place)"), rel, rel.node, f"{cname} release rebinds")
         for s, v in sets:
             k = flow.default_kind(v, u, c)
+            if k is None and v is not None and not flow.default_wrong(v, u, c):
+                ctx.error(f"R18.2: {cname}.__release_local__: `{norm(s)}`: the bound value is neither an empty container literal (directly, through names or a helper parameter) nor certainly something else: cannot decide")
+                continue
             ctx.ob("R18.2", f"{cname}.__release_local__ binds an empty {kinds[cname]}", k == kinds[cname], f"`{norm(s)}`: {'empty ' + k if k else 'not an empty container literal'}; reads default to an empty {kinds[cname]}", rel, s, f"{cname} release value {norm(s)}")
     ctx.floor("R18.2", "storage classes with a __release_local__", n, 2)
 
@@ -816,10 +1551,14 @@ def _r2(ctx: Ctx, flow: Flow, storage, kinds: dict[str, str]) -> None:
     ru = flow.unit_of(rl)
     a = rl.node.args
     p = (a.posonlyargs + a.args)[0].arg if (a.posonlyargs + a.args) else None
-    calls = _release_calls(flow, ru, _param_subject(ru, p), None) if p is not None else []
+    calls = _Rel(flow, None).calls(ru, _param_subject(ru, p)) if p is not None else []
     nodes = [x for x in (flow.run_node(c_, ru) for c_ in calls) if x is not None]
     cond = next((f"; `{norm(c_)}`: {w}" for c_, w in ((c_, flow.why_not_run(c_, ru)) for c_ in calls) if w is not None), "")
-    ctx.ob("R18.2", "release_local calls its argument's __release_local__ on every path", bool(nodes) and ru.cfg.all_paths_pass(ru.cfg.entry, [ru.cfg.exit], nodes), f"{len(calls)} call(s) of `{p}.__release_local__()`{cond}", rl, rl.node, "release_local delegates")
+    odd = _Rel(flow, None).unclear_use(_param_subject(ru, p), rl.node, ru) if (p is not None and not calls) else None
+    if odd is not None:
+        ctx.error(f"R18.2: release_local hands its argument to `{odd}`: not understood whether that calls its __release_local__")
+    else:
+        ctx.ob("R18.2", "release_local calls its argument's __release_local__ on every path", bool(nodes) and ru.cfg.all_paths_pass(ru.cfg.entry, [ru.cfg.exit], nodes), f"{len(calls)} call(s) of `{p}.__release_local__()`{cond}", rl, rl.node, "release_local delegates")
 
     # LocalManager
     lm = repo.cls(f"{LOCAL}.LocalManager")
@@ -855,6 +1594,11 @@ def _r2(ctx: Ctx, flow: Flow, storage, kinds: dict[str, str]) -> None:
         fact = f"stored value is {flow.describe(tags)}"
         if not own and cn is not None and keeper.reiterable_guard(cn):
             own, fact = True, f"`{lp}` itself, but only when it is a builtin list/tuple/set (re-iterable)"
+        if not own:
+            odd = _foreign_result(flow, iu, v, cn)
+            if odd is not None:
+                ctx.error(f"R18.2: LocalManager.__init__ stores the result of `{odd}`, a call into code the analysis does not see: cannot decide whether that is a container of the manager's own or a one-shot iterator")
+                continue
         ctx.ob("R18.2", f"LocalManager.__init__: `{norm(node)}` stores a container materialised in the constructor", own,
                fact + ("" if own else f": `{lp}` may be a one-shot iterator, exhausted by the first cleanup() so that later cleanups release nothing"), init, node, f"materialises {norm(node)}")
 
@@ -913,12 +1657,13 @@ def _r3(ctx: Ctx, flow: Flow, storage) -> list[Variant]:
 
     # (b) the installed _get_current_object variants
     installs = [c_ for c_ in iu.walk() if isinstance(c_, ast.Call) and dotted(c_.func) in ("object.__setattr__", "setattr") and len(c_.args) == 3 and astq.const_str(c_.args[1]) == "_get_current_object"]
-    if len(installs) != 1:
-        raise AnalysisError(f"LocalProxy.__init__: {len(installs)} installation(s) of _get_current_object, expected 1")
-    inst = installs[0]
-    inode = iu.cfg.node_of(inst)
-    ctx.ob("R18.3", "LocalProxy.__init__ installs _get_current_object on every normal path", inode is not None and flow.run_node(inst, iu) is inode and iu.cfg.all_paths_pass(iu.cfg.entry, [iu.cfg.exit], [inode]), norm(inst) + (f": {flow.why_not_run(inst, iu)}" if flow.why_not_run(inst, iu) else ""), init, inst, "installs resolver")
-    val = inst.args[2]
+    if not installs:
+        raise AnalysisError("LocalProxy.__init__: no installation of _get_current_object found")
+    # one installation after the if-chain, or one per branch: every normal path passes one that is executed unconditionally
+    inodes = [n_ for n_ in (flow.run_node(c_, iu) for c_ in installs) if n_ is not None]
+    cond = next((f": `{norm(c_)}` {w_}" for c_, w_ in ((c_, flow.why_not_run(c_, iu)) for c_ in installs) if w_ is not None), "")
+    ctx.ob("R18.3", "LocalProxy.__init__ installs _get_current_object on every normal path", bool(inodes) and iu.cfg.all_paths_pass(iu.cfg.entry, [iu.cfg.exit], inodes),
+           f"{len(installs)} installation(s): {'; '.join(norm(c_) for c_ in installs)}{cond}", init, installs[0], "installs resolver")
     variants: list[Variant] = []
     kind_names = {f"werkzeug.{LOCAL}.Local": "Local", f"werkzeug.{LOCAL}.LocalStack": "LocalStack", CONTEXTVAR: "ContextVar"}
 
@@ -962,10 +1707,15 @@ def _r3(ctx: Ctx, flow: Flow, storage) -> list[Variant]:
                 return None
         return out or None
 
-    rdefs = resolver_defs(val.id, inode) if isinstance(val, ast.Name) and inode is not None else None
-    if rdefs is None:
-        # a factory call, a lambda, functools.partial ...: nothing says it is wrong, but its body cannot be inspected here
-        raise AnalysisError(f"LocalProxy.__init__ installs `{norm(val)}` as _get_current_object: not (only) functions defined in the constructor, cannot inspect the resolvers")
+    rdefs: list | None = []
+    for inst in installs:
+        val = inst.args[2]
+        inode = iu.cfg.node_of(inst)
+        sub = resolver_defs(val.id, inode) if isinstance(val, ast.Name) and inode is not None else None
+        if sub is None:
+            # a factory call, a lambda, functools.partial ...: nothing says it is wrong, but its body cannot be inspected here
+            raise AnalysisError(f"LocalProxy.__init__ installs `{norm(val)}` as _get_current_object: not (only) functions defined in the constructor, cannot inspect the resolvers")
+        rdefs.extend(sub)
     seen_defs: set[int] = set()
     for d in sorted(rdefs, key=lambda d: getattr(d.stmt, "lineno", 0)):
         if id(d.stmt) in seen_defs:
@@ -1030,7 +1780,11 @@ def _r3(ctx: Ctx, flow: Flow, storage) -> list[Variant]:
     r = gu.cfg.reach(gu.cfg.entry, avoid_nodes=cnodes, avoid_edges=class_edges)
     ok = bool(cnodes) and gu.cfg.exit.id not in r
     p_ = gu.cfg.path(gu.cfg.entry, gu.cfg.exit, avoid_nodes=cnodes, avoid_edges=class_edges) if cnodes and not ok else None
-    ctx.ob("R18.3", "_ProxyLookup.__get__ resolves the current object on every instance access", ok,
+    handed = None if calls else next((c_ for c_ in gu.walk() if isinstance(c_, ast.Call) and dotted(c_.func) not in INERT_CALLS and any(astq.is_name(a_, inst_p) for a_ in list(c_.args) + [k.value for k in c_.keywords]) and flow.callees(c_, gu)), None)
+    if handed is not None:
+        ctx.error(f"R18.3: _ProxyLookup.__get__ does not call `{inst_p}._get_current_object()` itself but hands `{inst_p}` to `{norm(handed)}`: not followed, cannot decide whether the current object is resolved on every access")
+    else:
+        ctx.ob("R18.3", "_ProxyLookup.__get__ resolves the current object on every instance access", ok,
            f"{len(calls)} call(s) of `{inst_p}._get_current_object()`; class access (`{inst_p} is None`) excepted" + (f"; path without it: {gu.cfg.fmt_path(p_)}" if p_ else ""), get, calls[0] if calls else get.node, "__get__ resolves per access")
     kept = []
     for n in gu.walk():
@@ -1060,12 +1814,200 @@ def _r3(ctx: Ctx, flow: Flow, storage) -> list[Variant]:
 
 
 def _expect(ctx: Ctx, flow: Flow, fi: FuncInfo, kind: str, what: str, want_kind: str, want_detail: str, label: str) -> None:
+    """abstract run of fi with the payload known to be empty: every exit it can reach is the wanted one.  An unwanted
+    exit that is reached only beyond a payload-dependent condition the run could not evaluate (or a returned value it could
+    not work out) is not a violation but a method the analysis does not follow: cannot decide."""
     u = flow.unit_of(fi)
     run_ = EmptyRun(flow, u, kind)
-    good = bool(run_.outcomes) and all(o.kind == want_kind and o.detail == want_detail for o in run_.outcomes)
-    bad = next((o for o in run_.outcomes if not (o.kind == want_kind and o.detail == want_detail)), None)
-    ctx.ob("R18.4", f"{fi.qualname}: {what}", good and run_.decided > 0,
-           f"with an empty {kind} payload the method can only: {run_.summary()} ({run_.decided} payload-dependent branch(es) decided)", fi, bad.node.ast if bad is not None and bad.node.ast is not None else fi.node, label)
+
+    def wanted(o) -> bool:
+        return o.kind == want_kind and o.detail == want_detail
+
+    bad = [o for o in run_.outcomes if not wanted(o) and not o.uncertain]
+    unsure = [o for o in run_.outcomes if o.uncertain and not wanted(o)]
+    fact = f"with an empty {kind} payload the method can only: {run_.summary()} ({run_.decided} payload-dependent branch(es) decided)"
+    if not bad and (unsure or not run_.outcomes or run_.decided == 0):
+        why = "an exit is reached only through a payload-dependent condition / value that the abstract run cannot evaluate" if unsure else "no exit reached" if not run_.outcomes else "no branch, subscript or value of the method was decided by the payload being empty"
+        ctx.error(f"R18.4: {fi.qualname}: {what}: cannot decide - {why}; {fact}")
+        return
+    first = bad[0] if bad else None
+    ctx.ob("R18.4", f"{fi.qualname}: {what}", not bad, fact, fi, first.node.ast if first is not None and first.node.ast is not None else fi.node, label)
+
+
+def _ancestors(n: ast.AST) -> t.Iterator[ast.AST]:
+    cur = astq.parent(n)
+    while cur is not None:
+        yield cur
+        cur = astq.parent(cur)
+
+
+class _HOut(t.NamedTuple):
+    kind: str  # return | raise
+    detail: str | None  # raise: exception name (None = bare re-raise); return: "fallback" | "other"
+    node: Node
+    unit: Unit
+    text: str
+
+
+class _HandlerWalk:
+    """What the code that handles the RuntimeError of an unbound proxy ends in, under a valuation of "a fallback is declared":
+    the handler's paths are walked on the CFG, a test of the fallback slot (through local names, `is None` / `is not None` /
+    truthiness) takes only the edge the valuation allows, and a helper of the module called on the way is walked the same way
+    (its parameters carry the fallback where the call site passes it; a bare `raise` in a helper called from the handler
+    re-raises the exception being handled)."""
+
+    def __init__(self, flow: Flow, fb_attr: str, truthy: bool):
+        self.flow, self.fb_attr, self.truthy = flow, fb_attr, truthy
+        self.unknown: list[str] = []
+        self.exc_name: str | None = None
+        self.handler: ast.AST | None = None
+
+    def is_fb(self, e: ast.AST | None, u: Unit, binds: dict[str, bool], depth: int = 0) -> bool:
+        if e is None or depth > 6:
+            return False
+        if isinstance(e, ast.NamedExpr):
+            return self.is_fb(e.value, u, binds, depth)
+        if isinstance(e, ast.Call) and dotted(e.func) == "getattr" and len(e.args) == 2:
+            return self.flow.self_ref(e.args[0], u) and astq.const_str(e.args[1]) == self.fb_attr
+        if isinstance(e, ast.Name):
+            node = u.cfg.node_of(e)
+            defs = u.rd.reaching(node, e.id) if node is not None else frozenset()
+            return bool(defs) and all(
+                (d.kind == "param" and binds.get(d.name, False)) or (d.kind in ("assign", "walrus") and d.index is None and d.value is not None and self.is_fb(d.value, u, binds, depth + 1))
+                for d in defs)
+        return isinstance(e, ast.Attribute) and self.flow.self_ref(e.value, u) and e.attr == self.fb_attr
+
+    def mentions_fb(self, e: ast.AST, u: Unit, binds: dict[str, bool]) -> bool:
+        return any(isinstance(x, (ast.Name, ast.Attribute, ast.Call)) and self.is_fb(x, u, binds) for x in ast.walk(e))
+
+    def _binds_at(self, cu: Unit, call: ast.Call, off: int, u: Unit, binds: dict[str, bool]) -> dict[str, bool]:
+        out: dict[str, bool] = {}
+        a = cu.fi.node.args
+        for nm in [x.arg for x in a.posonlyargs + a.args + a.kwonlyargs]:
+            how, arg = self.flow.site_arg(cu, nm, call, off)
+            out[nm] = how == "arg" and arg is not None and self.is_fb(arg, u, binds)
+        return out
+
+    def _helper(self, call: ast.AST | None, u: Unit) -> tuple[Unit, int] | None:
+        if not isinstance(call, ast.Call):
+            return None
+        callees = self.flow.callees(call, u)
+        if len(callees) != 1:
+            return None
+        cu, off = callees[0]
+        if isinstance(cu.fi.node, ast.AsyncFunctionDef) or any(isinstance(n, (ast.Yield, ast.YieldFrom)) for n in cu.walk()):
+            return None
+        return cu, off
+
+    def from_fb(self, e: ast.AST | None, u: Unit, binds: dict[str, bool], depth: int = 0) -> bool:
+        """the value is the declared fallback, or produced from it (bound with __get__, called, an attribute of it)."""
+        if e is None or depth > 10:
+            return False
+        if self.is_fb(e, u, binds):
+            return True
+        if isinstance(e, ast.NamedExpr):
+            return self.from_fb(e.value, u, binds, depth + 1)
+        if isinstance(e, ast.IfExp):
+            return self.from_fb(e.body, u, binds, depth + 1) and self.from_fb(e.orelse, u, binds, depth + 1)
+        if isinstance(e, ast.Call):
+            hp = self._helper(e, u)
+            if hp is not None:
+                cu, off = hp
+                b2 = self._binds_at(cu, e, off, u, binds)
+                rets = [n for n in cu.walk() if isinstance(n, ast.Return)]
+                return bool(rets) and all(self.from_fb(r.value, cu, b2, depth + 1) for r in rets)
+            if (dotted(e.func) or "").endswith("cast") and len(e.args) == 2:
+                return self.from_fb(e.args[1], u, binds, depth + 1)
+            return self.from_fb(e.func, u, binds, depth + 1) or any(self.from_fb(a_, u, binds, depth + 1) for a_ in e.args)
+        if isinstance(e, ast.Attribute):
+            return self.from_fb(e.value, u, binds, depth + 1)
+        if isinstance(e, ast.Name):
+            node = u.cfg.node_of(e)
+            defs = u.rd.reaching(node, e.id) if node is not None else frozenset()
+            return bool(defs) and all(d.kind in ("assign", "walrus") and d.index is None and self.from_fb(d.value, u, binds, depth + 1) for d in defs)
+        return False
+
+    def _fb_edge(self, t_: Node, u: Unit, binds: dict[str, bool], has_fb: bool) -> str | None:
+        """label of the edge a test of the fallback takes under the valuation (None: not such a test)."""
+        nl = _none_test(t_, lambda e: self.is_fb(e, u, binds))
+        if nl is not None:
+            return _other(nl) if has_fb else nl
+        if t_.kind == "test" and t_.ast is not None and self.is_fb(t_.ast, u, binds):
+            if self.truthy:
+                return "T" if has_fb else "F"
+        return None
+
+    def outcomes(self, u: Unit, starts: list[Node], has_fb: bool, binds: dict[str, bool], depth: int = 0, in_handler: bool = True) -> list[_HOut]:
+        cfg = u.cfg
+        out: list[_HOut] = []
+        seen: set[int] = set()
+        work = list(starts)
+        where = "" if depth == 0 else f" in {u.fi.qualname}"
+        while work:
+            n = work.pop()
+            if n.id in seen:
+                continue
+            seen.add(n.id)
+            a = n.ast
+            if n is cfg.exit:
+                out.append(_HOut("return", "other", n, u, f"leaves{where} without a return (None)"))
+                continue
+            if n is cfg.raise_exit:
+                continue
+            if n.kind == "test":
+                lab = self._fb_edge(n, u, binds, has_fb)
+                if lab is None and depth == 0 and isinstance(a, ast.Name) and self.handler is not None:
+                    # a flag set while handling the exception (`bound = False`) and tested after the try statement
+                    mine = [d for d in u.rd.reaching(n, a.id) if d.stmt is not None and any(p_ is self.handler for p_ in _ancestors(d.stmt))]
+                    if mine and all(d.kind == "assign" and d.index is None and isinstance(d.value, ast.Constant) for d in mine) and len({bool(d.value.value) for d in mine}) == 1:  # type: ignore[union-attr]
+                        lab = "T" if bool(mine[0].value.value) else "F"  # type: ignore[union-attr]
+                if lab is None and a is not None and self.mentions_fb(a, u, binds):
+                    self.unknown.append(f"test `{n.text()}` of the fallback{where}")
+                work.extend(s for s, l in n.succs if l != "exc" and (lab is None or l == lab))
+                continue
+            if isinstance(a, ast.Raise):
+                if a.exc is None:
+                    inner = astq.parent(a)
+                    while inner is not None and inner is not u.fi.node and not isinstance(inner, ast.ExceptHandler):
+                        inner = astq.parent(inner)
+                    if depth > 0 and isinstance(inner, ast.ExceptHandler):
+                        self.unknown.append(f"bare `raise` inside a handler of {u.fi.qualname}")
+                    out.append(_HOut("raise", None, n, u, f"re-raise{where}"))
+                else:
+                    nm = raised_class(u, a, self.flow)
+                    if depth == 0 and isinstance(a.exc, ast.Name) and a.exc.id == self.exc_name:
+                        nm = None  # `except RuntimeError as e: ... raise e`
+                    elif (nm or "").startswith("?"):
+                        self.unknown.append(f"`{norm(a)}`{where}: the class of what is raised cannot be told")
+                    out.append(_HOut("raise", nm, n, u, f"raise {nm or 'the handled exception'}{where}"))
+                continue
+            if n.kind == "stmt" and a is not None and not isinstance(a, (ast.FunctionDef, ast.AsyncFunctionDef, ast.ClassDef)):
+                goes_on = True
+                returned = EmptyRun._through(a.value) if isinstance(a, ast.Return) else None
+                for c_ in [x for x in [a, *walk_no_nested(a)] if isinstance(x, ast.Call)]:
+                    hp = self._helper(c_, u)
+                    if hp is None or depth >= 2:
+                        continue
+                    cu, off = hp
+                    if why_conditional(c_, a) is not None:
+                        self.unknown.append(f"helper call `{norm(c_)}` evaluated conditionally inside one statement{where}")
+                        continue
+                    sub = self.outcomes(cu, [cu.cfg.entry], has_fb, self._binds_at(cu, c_, off, u, binds), depth + 1)
+                    out.extend(o for o in sub if o.kind == "raise")
+                    rets = [o for o in sub if o.kind == "return"]
+                    if not rets:
+                        goes_on = False
+                    elif c_ is returned:
+                        out.extend(rets)
+                        goes_on = False
+                if not goes_on:
+                    continue
+                if isinstance(a, ast.Return):
+                    good = self.from_fb(a.value, u, binds)
+                    out.append(_HOut("return", "fallback" if good else "other", n, u, f"`{norm(a)}`{where}" + ("" if good else " (not produced from the fallback)")))
+                    continue
+            work.extend(s for s, l in n.succs if l != "exc")
+        return out
 
 
 def _r4(ctx: Ctx, flow: Flow, storage, kinds: dict[str, str], variants: list[Variant]) -> None:
@@ -1111,55 +2053,130 @@ def _r4(ctx: Ctx, flow: Flow, storage, kinds: dict[str, str], variants: list[Var
                     out.append(n)
         return out
 
-    def handled(v: Variant, exc: str, what: str) -> None:
+    def raises_runtime(v: Variant, starts: list[Node], instance: str, fact_prefix: str, node: ast.AST, key: str) -> bool:
+        ok, fact = _only_raises(flow, v.unit, starts, {"RuntimeError"})
+        if ok is None:
+            ctx.error(f"R18.4: {instance}: cannot decide - {fact_prefix}{fact}")
+            return False
+        ctx.ob("R18.4", instance, ok, fact_prefix + fact, init, node, key)
+        return bool(ok)
+
+    def handled(v: Variant, exc: str, what: str, skip: t.Callable[[Node], bool] = lambda n: False) -> None:
         cfg = v.unit.cfg
-        lks = lookup_nodes(v)
+        lks = [n for n in lookup_nodes(v) if not skip(n)]
         if not lks:
             ctx.ob("R18.4", f"the {v.kind} resolver converts {exc} into RuntimeError", False, "no lookup in the resolver", init, v.defnode, f"{v.kind} resolver converts {exc}")
             return
         for lk in lks:
             hs = [s for s, l in lk.succs if l == "exc" and isinstance(s.ast, ast.ExceptHandler)]
             catching = [h for h in hs if handler_catches(h.ast, exc)]  # type: ignore[arg-type]
+            instance = f"the {v.kind} resolver converts {exc} ({what}) into RuntimeError"
             if not catching:
-                ok, fact = False, f"`{lk.text()}` {what} raises {exc}; handlers around it: {[h.text() for h in hs] or 'none'}"
+                ctx.ob("R18.4", instance, False, f"`{lk.text()}` {what} raises {exc}; handlers around it: {[h.text() for h in hs] or 'none'}", init, lk.ast, f"{v.kind} resolver converts {exc}")
             else:
-                ok, fact = _only_raises(cfg, [s for s, _ in catching[0].succs], {"RuntimeError"})
-                fact = f"`{lk.text()}` under `{catching[0].text()}`: {fact}"
-            ctx.ob("R18.4", f"the {v.kind} resolver converts {exc} ({what}) into RuntimeError", ok, fact, init, lk.ast, f"{v.kind} resolver converts {exc}")
+                raises_runtime(v, [s for s, _ in catching[0].succs], instance, f"`{lk.text()}` under `{catching[0].text()}`: ", lk.ast, f"{v.kind} resolver converts {exc}")
 
-    handled(by_kind["Local"], "AttributeError", "of a name missing in the namespace")
+    def sentinel_style(v: Variant, is_source, is_sentinel, sent_text: str, what: str, k_test: str, k_branch: str, k_guard: str) -> None:
+        """the resolver reads a value that is a sentinel (None / a unique object) when nothing is bound: the branch on which
+        the value IS the sentinel can only raise RuntimeError (in the resolver or a helper that never returns), and every
+        return lies behind that test.  The test may also sit in a helper that is handed the value (`obj = _require(obj)`):
+        then the helper's sentinel branch only raises, and every return of the resolver lies behind the helper call."""
+        instance = f"the {v.kind} resolver converts {what} into RuntimeError"
+
+        def values_in(u: Unit, is_src):
+            def is_val(e: ast.AST, depth: int = 0) -> bool:
+                if is_src(e):
+                    return True
+                if isinstance(e, ast.NamedExpr):
+                    return is_val(e.value, depth)
+                if isinstance(e, ast.Name) and depth < 4:
+                    node = u.cfg.node_of(e)
+                    defs = u.rd.reaching(node, e.id) if node is not None else frozenset()
+                    return bool(defs) and all(d.kind in ("assign", "walrus") and d.index is None and d.value is not None and is_val(d.value, depth + 1) for d in defs)
+                return False
+
+            return is_val
+
+        def tested_in(vv: Variant, is_val, where: str) -> bool | None:
+            """obligations for the tests of the value in vv.unit; None when there is no such test."""
+            cfg = vv.unit.cfg
+            tests = [(t_, _none_test(t_, is_val, is_sentinel)) for t_ in cfg.tests()]
+            tests = [(t_, l) for t_, l in tests if l is not None]
+            if not tests:
+                return None
+            oks = [raises_runtime(vv, cfg.succ(t_, l), instance, f"`{t_.text()}`{where} when true for {sent_text}: ", t_.ast, k_branch) for t_, l in tests]
+            rets = [n for n in cfg.nodes if isinstance(n.ast, ast.Return)]
+            t0, l0 = tests[0]
+            # behind the test: dominated by its other edge - or by the test itself when its sentinel branch never comes back
+            unguarded = [n for n in rets if not (cfg.edge_dominates(t0, _other(l0), n) or (oks[0] and cfg.node_dominates(t0, n)))]
+            ctx.ob("R18.4", f"the {v.kind} resolver returns only after the {sent_text} test", bool(rets) and not unguarded, f"{len(rets)} return(s){where}, {len(unguarded)} not behind the not-{sent_text} edge of `{t0.text()}`", init, (unguarded[0].ast if unguarded else vv.defnode), k_guard)
+            return all(oks) and bool(rets) and not unguarded
+
+        is_val = values_in(v.unit, is_source)
+        if tested_in(v, is_val, "") is not None:
+            return
+        handed = [c_ for c_ in v.unit.walk() if isinstance(c_, ast.Call) and dotted(c_.func) not in INERT_CALLS and any(is_val(a_) for a_ in c_.args) and flow.callees(c_, v.unit)]
+        for c_ in handed:
+            callees = flow.callees(c_, v.unit)
+            cn = v.unit.cfg.node_of(c_)
+            if len(callees) != 1 or cn is None or why_conditional(c_, cn.ast) is not None:
+                continue
+            tu, off = callees[0]
+            pn = _param_receiving(flow, tu, c_, off, is_val)
+            if pn is None or tu is v.unit:
+                continue
+            r = tested_in(Variant(tu, v.kind, tu.fi.node), values_in(tu, _param_subject(tu, pn)), f" in {tu.fi.name}")
+            if r is None:
+                continue
+            rets = [n for n in v.unit.cfg.nodes if isinstance(n.ast, ast.Return)]
+            late = [n for n in rets if not v.unit.cfg.node_dominates(cn, n)]
+            ctx.ob("R18.4", f"the {v.kind} resolver returns only after the {sent_text} test", bool(rets) and not late, f"{len(rets)} return(s) in the resolver, {len(late)} not behind `{norm(c_)}` (which holds the test)", init, (late[0].ast if late else v.defnode), k_guard + " (call)")
+            return
+        if handed:
+            ctx.error(f"R18.4: {instance}: the value read is not tested in the resolver but handed to `{norm(handed[0])}`: not followed, cannot decide")
+        else:
+            ctx.ob("R18.4", instance, False, f"no `is {sent_text}` test of the value read in the resolver", init, v.defnode, k_test)
+
     cv = by_kind["ContextVar"]
-    handled(cv, "LookupError", "of an unset ContextVar")
-    for c_ in ast.walk(cv.defnode):
-        if isinstance(c_, ast.Call) and isinstance(c_.func, ast.Attribute) and c_.func.attr == "get" and astq.is_name(c_.func.value, P):
+    cv_gets = [c_ for c_ in ast.walk(cv.defnode) if isinstance(c_, ast.Call) and isinstance(c_.func, ast.Attribute) and c_.func.attr == "get" and astq.is_name(c_.func.value, P)]
+
+    def unique_sentinel(e: ast.AST | None, v: Variant) -> str | None:
+        """name of a module-level `object()` (an object nobody else can have put into the variable)."""
+        at = v.unit.cfg.node_of(e) if e is not None else None
+        if isinstance(e, ast.Name) and at is not None and not v.unit.rd.reaching(at, e.id) and not Flow._binds(flow.unit_of(init), e.id):
+            vals = mod.assigns.get(e.id) or []
+            if vals and all(isinstance(v_, ast.Call) and dotted(v_.func) == "object" and not v_.args and not v_.keywords for v_ in vals):
+                return e.id
+        return None
+
+    lv = by_kind["Local"]
+    l_uses = [n for n in ast.walk(lv.defnode) if isinstance(n, ast.Name) and n.id == P and isinstance(n.ctx, ast.Load)]
+    l_gets = [astq.parent(n) for n in l_uses]
+    l_sents = {unique_sentinel(c_.args[2], lv) if isinstance(c_, ast.Call) and dotted(c_.func) == "getattr" and len(c_.args) == 3 and c_.args[0] in l_uses and not c_.keywords else None for c_ in l_gets}
+    if l_gets and None not in l_sents and len(l_sents) == 1:
+        # `getattr(local, name, <unique sentinel>)` + identity test instead of attribute access + `except AttributeError`
+        sname = next(iter(l_sents))
+        sentinel_style(lv, lambda e: any(e is c_ for c_ in l_gets), lambda e: astq.is_name(e, sname), sname, f"AttributeError (of a name missing in the namespace, read as `{sname}`)",
+                       "Local resolver converts AttributeError", "Local resolver converts AttributeError", "Local resolver return guarded")
+    else:
+        handled(lv, "AttributeError", "of a name missing in the namespace")
+
+    sents = {unique_sentinel(c_.args[0], cv) if len(c_.args) == 1 and not c_.keywords else None for c_ in cv_gets}
+    if cv_gets and None not in sents and len(sents) == 1:
+        # `.get(<unique sentinel>)` + identity test instead of `.get()` + `except LookupError`
+        sname = next(iter(sents))
+        for c_ in cv_gets:
+            ctx.ob("R18.4", "the ContextVar resolver reads without a default", True, f"`{norm(c_)}`: the default is the module-level sentinel `{sname} = object()`, which no context can have bound", init, c_, "ContextVar resolver get")
+        sentinel_style(cv, lambda e: any(e is c_ for c_ in cv_gets), lambda e: astq.is_name(e, sname), sname, f"an unset ContextVar (read as `{sname}`)",
+                       "ContextVar resolver converts LookupError", "ContextVar resolver converts LookupError", "ContextVar resolver return guarded")
+    else:
+        handled(cv, "LookupError", "of an unset ContextVar")
+        for c_ in cv_gets:
             ctx.ob("R18.4", "the ContextVar resolver reads without a default", not c_.args and not c_.keywords, f"`{norm(c_)}`" + ("" if not c_.args else ": with a default an unset variable resolves to the default instead of reporting unbound"), init, c_, "ContextVar resolver get")
 
     # LocalStack: None top -> RuntimeError
-    cfg = sv.unit.cfg
-
-    def is_top(e: ast.AST) -> bool:
-        if isinstance(e, ast.Attribute) and astq.is_name(e.value, P) and e.attr == top_names[0]:
-            return True
-        if isinstance(e, ast.NamedExpr):
-            return is_top(e.value)
-        if isinstance(e, ast.Name):
-            node = cfg.node_of(e)
-            defs = sv.unit.rd.reaching(node, e.id) if node is not None else frozenset()
-            return bool(defs) and all(d.kind in ("assign", "walrus") and d.index is None and d.value is not None and is_top(d.value) for d in defs)
-        return False
-
-    tests = [(t_, _none_test(t_, is_top)) for t_ in cfg.tests()]
-    tests = [(t_, l) for t_, l in tests if l is not None]
-    if not tests:
-        ctx.ob("R18.4", "the LocalStack resolver converts a None top into RuntimeError", False, f"no `is None` test of `{P}.{top_names[0]}` in the resolver", init, sv.defnode, "LocalStack resolver tests top")
-    for t_, l in tests:
-        ok, fact = _only_raises(cfg, cfg.succ(t_, l), {"RuntimeError"})
-        ctx.ob("R18.4", "the LocalStack resolver converts a None top into RuntimeError", ok, f"`{t_.text()}` when true for None: {fact}", init, t_.ast, "LocalStack resolver none branch")
-    if tests:
-        rets = [n for n in cfg.nodes if isinstance(n.ast, ast.Return)]
-        t0, l0 = tests[0]
-        unguarded = [n for n in rets if not cfg.edge_dominates(t0, _other(l0), n)]
-        ctx.ob("R18.4", "the LocalStack resolver returns only after the None test", bool(rets) and not unguarded, f"{len(rets)} return(s), {len(unguarded)} not dominated by the not-None edge of `{t0.text()}`", init, (unguarded[0].ast if unguarded else sv.defnode), "LocalStack resolver return guarded")
+    sentinel_style(sv, lambda e: isinstance(e, ast.Attribute) and astq.is_name(e.value, P) and e.attr == top_names[0], astq.is_none, "None", "a None top",
+                   "LocalStack resolver tests top", "LocalStack resolver none branch", "LocalStack resolver return guarded")
 
     # --- _ProxyLookup.__get__ --------------------------------------------------------------
     pl = repo.cls(f"{LOCAL}._ProxyLookup")
@@ -1175,14 +2192,12 @@ def _r4(ctx: Ctx, flow: Flow, storage, kinds: dict[str, str], variants: list[Var
     ctx.ob("R18.4", "_ProxyLookup.__init__ keeps the declared fallback", len(fb_attrs) == 1 and "fallback" in flow.unit_of(pinit).fi.params, f"stored as {fb_attrs}", pinit, pinit.node, "fallback stored")
     fb_attr = fb_attrs[0] if fb_attrs else "fallback"
 
-    def is_fb(e: ast.AST, depth: int = 0) -> bool:
-        if isinstance(e, ast.NamedExpr):
-            return is_fb(e.value, depth)
-        if isinstance(e, ast.Name) and depth < 4:  # declared = self.fallback ... if declared is None
-            node = gcfg.node_of(e)
-            defs = gu.rd.reaching(node, e.id) if node is not None else frozenset()
-            return bool(defs) and all(d.kind in ("assign", "walrus") and d.index is None and d.value is not None and is_fb(d.value, depth + 1) for d in defs)
-        return isinstance(e, ast.Attribute) and flow.self_ref(e.value, gu) and e.attr == fb_attr
+    # declared fallbacks are functions (lambda / module function): truthy, so `if self.fallback:` is the not-None test
+    declared = [astq.arg_or_kw(v, 1, "fallback") for v in lp.attrs.values()
+                if isinstance(v, ast.Call) and (repo.resolve(mod, dotted(v.func) or "?") or "").startswith(f"werkzeug.{LOCAL}._Proxy")]
+    declared = [d for d in declared if d is not None and not astq.is_none(d)]
+    truthy_fb = bool(declared) and all(isinstance(d, ast.Lambda) or (isinstance(d, ast.Name) and d.id in mod.functions) for d in declared)
+    walk_ = _HandlerWalk(flow, fb_attr, truthy_fb)
 
     for c_ in calls:
         cn = gcfg.node_of(c_)
@@ -1194,41 +2209,23 @@ def _r4(ctx: Ctx, flow: Flow, storage, kinds: dict[str, str], variants: list[Var
         if not catching:
             continue
         h = catching[0]
-        region = gcfg.reach(h)
-        ftests = [(t_, _none_test(t_, is_fb)) for t_ in gcfg.tests() if t_.id in region]
-        ftests = [(t_, l) for t_, l in ftests if l is not None]
-        if not ftests:
-            ctx.ob("R18.4", "_ProxyLookup.__get__ re-raises when no fallback is declared", False, f"no `self.{fb_attr} is None` test in the handler", get, h.ast, "__get__ fallback test")
+        walk_.exc_name = h.ast.name  # type: ignore[union-attr]
+        walk_.handler = h.ast
+        without = walk_.outcomes(gu, [h], False, {})
+        with_ = walk_.outcomes(gu, [h], True, {})
+        if walk_.unknown:
+            ctx.error("R18.4: _ProxyLookup.__get__: the code handling the RuntimeError of an unbound proxy is not understood (" + "; ".join(sorted(set(walk_.unknown))) + "): cannot decide what happens with / without a declared fallback")
             continue
-        t0, l0 = ftests[0]
-        ok, fact = _only_raises(gcfg, gcfg.succ(t0, l0), {None, "RuntimeError"})
-        ctx.ob("R18.4", "_ProxyLookup.__get__ re-raises when no fallback is declared", ok, f"`{t0.text()}` true: {fact}", get, t0.ast, "__get__ re-raises without fallback")
-        # with a fallback: returns, and what it returns comes from the fallback
-        other_starts = gcfg.succ(t0, _other(l0))
-        r2 = gcfg.reach(other_starts)
-        raises = [n for n in gcfg.nodes if n.id in r2 and isinstance(n.ast, ast.Raise)]
-        rets = [n for n in gcfg.nodes if n.id in r2 and isinstance(n.ast, ast.Return)]
 
-        def from_fb(e: ast.AST | None, depth: int = 0) -> bool:
-            if e is None or depth > 10:
-                return False
-            if is_fb(e):
-                return True
-            if isinstance(e, ast.IfExp):
-                return from_fb(e.body, depth + 1) and from_fb(e.orelse, depth + 1)
-            if isinstance(e, ast.Call):
-                return from_fb(e.func, depth + 1) or any(from_fb(a_, depth + 1) for a_ in e.args)
-            if isinstance(e, ast.Attribute):
-                return from_fb(e.value, depth + 1)
-            if isinstance(e, ast.Name):
-                node = gcfg.node_of(e)
-                defs = gu.rd.reaching(node, e.id) if node is not None else frozenset()
-                return bool(defs) and all(d.kind in ("assign", "walrus") and d.index is None and from_fb(d.value, depth + 1) for d in defs)
-            return False
+        def show(outs) -> str:
+            return "; ".join(sorted({o.text for o in outs})) or "no exit reached"
 
-        ok2 = bool(rets) and not raises and gcfg.raise_exit.id not in r2 and all(from_fb(n.ast.value) for n in rets)  # type: ignore[union-attr]
-        ctx.ob("R18.4", "_ProxyLookup.__get__ answers from the fallback when one is declared", ok2,
-               f"{len(rets)} return(s) in the handler: {[norm(n.ast) for n in rets]}; raises: {[norm(n.ast) for n in raises]}", get, t0.ast, "__get__ uses fallback")
+        ok = bool(without) and all(o.kind == "raise" and o.detail in (None, "RuntimeError") for o in without)
+        badn = next((o for o in without if not (o.kind == "raise" and o.detail in (None, "RuntimeError"))), None)
+        ctx.ob("R18.4", "_ProxyLookup.__get__ re-raises when no fallback is declared", ok, f"handling RuntimeError with `self.{fb_attr}` None ends in: {show(without)}", get, badn.node.ast if badn is not None and badn.node.ast is not None and badn.unit is gu else h.ast, "__get__ re-raises without fallback")
+        ok2 = bool(with_) and all(o.kind == "return" and o.detail == "fallback" for o in with_)
+        badn = next((o for o in with_ if not (o.kind == "return" and o.detail == "fallback")), None)
+        ctx.ob("R18.4", "_ProxyLookup.__get__ answers from the fallback when one is declared", ok2, f"handling RuntimeError with `self.{fb_attr}` declared ends in: {show(with_)}", get, badn.node.ast if badn is not None and badn.node.ast is not None and badn.unit is gu else h.ast, "__get__ uses fallback")
 
     # --- declared fallbacks -----------------------------------------------------------------------
     fallbacks: dict[str, ast.AST | None] = {}
